@@ -6,589 +6,612 @@ From Centro Require Import Model.MaskFlow.
 Import ListNotations.
 
 (* library symbols (index: name) *)
-(* 0: copy; 1: all; 2: not; 3: take; 4: rank_order.translation; 5: gather; 6: _filter.median_filter; 7: scatter; 8: rank_order.ranks; 9: needs_ranking; 10: ascontiguousarray; 11: one_pixel_per_component(edt,label,rank_order,maximum_position); 12: has_greater_neighbour; 13: any; 14: index; 15: unpack1; 16: rank_order; 17: unpack0; 18: or; 19: lt; 20: min; 21: gt; 22: max; 23: cropiradius:-iradius,iradius:-iradius; 24: grey_erosion; 25: setsliceiradius:-iradius,iradius:-iradius; 26: grey_dilation; 27: sub; 28: max_axis0; 29: grey_dilation@angle0; 30: grey_erosion@angle0; 31: grey_dilation@angle1; 32: grey_erosion@angle1; 33: grey_dilation@angle2; 34: grey_erosion@angle2; 35: min_axis0; 36: sqrt; 37: add; 38: pow; 39: abs; 40: convolve3x3; 41: mult; 42: shift(-1,+1); 43: shift(+1,+1); 44: gte; 45: div; 46: function; 47: lte; 48: shift(+1,-1); 49: logical_or; 50: shift(+1,+0); 51: shift(-1,+0); 52: shift(+0,-1); 53: shift(+0,+1); 54: shift(-1,-1); 55: eq; 56: label; 57: setslice1:; 58: zeros; 59: fix; 60: sum; 61: arange; 62: convolve; 63: gaussian_filter; 64: kernel; 65: array; 66: count_nonzero; 67: opaque_expression; 68: lstsq; 69: transpose; 70: sum_of_shifts; 71: astype; 72: gt0; 73: len_is_0; 74: convex_hull_transform_core; 75: rescale; 76: table_lookup; 77: index_set; 78: loop:index_i; 79: len; 80: prepare_for_index_lookup; 81: unpack2; 82: loop:index_j; 83: skeletonize_loop; 84: lexsort; 85: distance_transform_edt *)
+(* 0: all; 1: not; 2: copy; 3: needs_ranking; 4: take; 5: rank_order.translation; 6: gather; 7: _filter.median_filter; 8: scatter; 9: rank_order.ranks; 10: ascontiguousarray; 11: any; 12: has_greater_structure_neighbour; 13: one_pixel_per_component(edt,label,rank_order,maximum_position); 14: or; 15: lt; 16: min; 17: gt; 18: max; 19: index; 20: unpack1; 21: rank_order; 22: unpack0; 23: cropiradius:-iradius,iradius:-iradius; 24: grey_erosion; 25: setsliceiradius:-iradius,iradius:-iradius; 26: grey_dilation; 27: sub; 28: max_axis0; 29: min_axis0; 30: sqrt; 31: add; 32: pow; 33: abs; 34: convolve3x3; 35: mult; 36: shift(-1,+1); 37: shift(+1,+1); 38: eq; 39: label; 40: gte; 41: div; 42: function; 43: lte; 44: shift(+1,-1); 45: logical_or; 46: shift(+1,+0); 47: shift(-1,+0); 48: shift(+0,-1); 49: shift(+0,+1); 50: shift(-1,-1); 51: setslice1:; 52: zeros; 53: fix; 54: sum; 55: arange; 56: convolve; 57: gaussian_filter; 58: kernel; 59: array; 60: count_nonzero; 61: opaque_expression; 62: lstsq; 63: transpose; 64: loop:m; 65: cropymin+y:ymax+y,xmin+x:xmax+x; 66: loop:a; 67: len; 68: unique; 69: astype; 70: maximum; 71: convex_hull_transform; 72: floor; 73: minimum; 74: cumsum; 75: indexed_store; 76: shape_of; 77: convex_hull_ijv; 78: column_stack; 79: loop:first_i; 80: ones; 81: slice; 82: loop:first_j; 83: loop:first_levels; 84: unpack2; 85: get_line_pts; 86: crop1:; 87: lexsort; 88: unpack3; 89: hstack; 90: bitor; 91: noteq; 92: crop:-1; 93: bitand; 94: neg; 95: table_lookup; 96: index_set; 97: loop:index_i; 98: prepare_for_index_lookup; 99: loop:index_j; 100: skeletonize_loop; 101: distance_transform_edt *)
 (* constants (index: name) *)
-(* 0: zeros_uint8; 1: zeros(..); 2: ones(..); 3: 1; 4: cmp; 5: unpacked; 6: expr; 7: $clip; 8: zeros; 9: True; 10: is; 11: permutation(..) *)
+(* 0: zeros_uint8; 1: zeros(..); 2: ones(..); 3: 1; 4: cmp; 5: $clip; 6: unpacked; 7: expr; 8: True; 9: is; 10: zeros; 11: permutation(..) *)
+Definition sym_all : nat := 0.
+Definition sym_not : nat := 1.
+Definition sym_copy : nat := 2.
+Definition sym_needs_ranking : nat := 3.
+Definition sym_take : nat := 4.
+Definition sym_rank_order_translation : nat := 5.
+Definition sym_gather : nat := 6.
+Definition sym_filter_median_filter : nat := 7.
+Definition sym_scatter : nat := 8.
+Definition sym_rank_order_ranks : nat := 9.
+Definition sym_ascontiguousarray : nat := 10.
+Definition sym_any : nat := 11.
+Definition sym_has_greater_structure_neighbour : nat := 12.
+Definition sym_one_pixel_per_component_edt_label_rank_order_maximum_position : nat := 13.
+Definition sym_or : nat := 14.
+Definition sym_lt : nat := 15.
+Definition sym_min : nat := 16.
+Definition sym_gt : nat := 17.
+Definition sym_max : nat := 18.
+Definition sym_index : nat := 19.
+Definition sym_unpack1 : nat := 20.
+Definition sym_rank_order : nat := 21.
+Definition sym_unpack0 : nat := 22.
+Definition sym_cropiradius_iradius_iradius_iradius : nat := 23.
+Definition sym_grey_erosion : nat := 24.
+Definition sym_setsliceiradius_iradius_iradius_iradius : nat := 25.
+Definition sym_grey_dilation : nat := 26.
+Definition sym_sub : nat := 27.
+Definition sym_max_axis0 : nat := 28.
+Definition sym_min_axis0 : nat := 29.
+Definition sym_sqrt : nat := 30.
+Definition sym_add : nat := 31.
+Definition sym_pow : nat := 32.
+Definition sym_abs : nat := 33.
+Definition sym_convolve3x3 : nat := 34.
+Definition sym_mult : nat := 35.
+Definition sym_shift_1_1 : nat := 36.
+Definition sym_eq : nat := 38.
+Definition sym_label : nat := 39.
+Definition sym_gte : nat := 40.
+Definition sym_div : nat := 41.
+Definition sym_function : nat := 42.
+Definition sym_lte : nat := 43.
+Definition sym_logical_or : nat := 45.
+Definition sym_shift_1_0 : nat := 46.
+Definition sym_shift_0_1 : nat := 48.
+Definition sym_setslice1 : nat := 51.
+Definition sym_zeros : nat := 52.
+Definition sym_fix : nat := 53.
+Definition sym_sum : nat := 54.
+Definition sym_arange : nat := 55.
+Definition sym_convolve : nat := 56.
+Definition sym_gaussian_filter : nat := 57.
+Definition sym_kernel : nat := 58.
+Definition sym_array : nat := 59.
+Definition sym_count_nonzero : nat := 60.
+Definition sym_opaque_expression : nat := 61.
+Definition sym_lstsq : nat := 62.
+Definition sym_transpose : nat := 63.
+Definition sym_loop_m : nat := 64.
+Definition sym_cropymin_y_ymax_y_xmin_x_xmax_x : nat := 65.
+Definition sym_loop_a : nat := 66.
+Definition sym_len : nat := 67.
+Definition sym_unique : nat := 68.
+Definition sym_astype : nat := 69.
+Definition sym_maximum : nat := 70.
+Definition sym_convex_hull_transform : nat := 71.
+Definition sym_floor : nat := 72.
+Definition sym_minimum : nat := 73.
+Definition sym_cumsum : nat := 74.
+Definition sym_indexed_store : nat := 75.
+Definition sym_shape_of : nat := 76.
+Definition sym_convex_hull_ijv : nat := 77.
+Definition sym_column_stack : nat := 78.
+Definition sym_loop_first_i : nat := 79.
+Definition sym_ones : nat := 80.
+Definition sym_slice : nat := 81.
+Definition sym_loop_first_j : nat := 82.
+Definition sym_loop_first_levels : nat := 83.
+Definition sym_unpack2 : nat := 84.
+Definition sym_get_line_pts : nat := 85.
+Definition sym_crop1 : nat := 86.
+Definition sym_lexsort : nat := 87.
+Definition sym_unpack3 : nat := 88.
+Definition sym_hstack : nat := 89.
+Definition sym_bitor : nat := 90.
+Definition sym_noteq : nat := 91.
+Definition sym_crop_1 : nat := 92.
+Definition sym_bitand : nat := 93.
+Definition sym_neg : nat := 94.
+Definition sym_table_lookup : nat := 95.
+Definition sym_index_set : nat := 96.
+Definition sym_loop_index_i : nat := 97.
+Definition sym_prepare_for_index_lookup : nat := 98.
+Definition sym_loop_index_j : nat := 99.
+Definition sym_skeletonize_loop : nat := 100.
+Definition sym_distance_transform_edt : nat := 101.
 
-(* shared sub-terms (text sharing only) *)
-Definition sh_0 : expr := (Select (Glob 8 [(Glob 5 [(Select Img MaskE FalseC); MaskE])]) (Glob 9 [Img]) (Glob 5 [(Select Img MaskE FalseC); MaskE])).
-Definition sh_1 : expr := (Glob 7 [sh_0; MaskE]).
-Definition sh_2 : expr := (Select sh_1 MaskE (Const 0)).
-Definition sh_3 : expr := (Glob 6 [sh_2; (Pw 10 [MaskE])]).
-Definition sh_4 : expr := (Glob 3 [(Glob 4 [(Glob 5 [(Select Img MaskE FalseC); MaskE])]); sh_3]).
-Definition sh_5 : expr := (Select sh_4 (Glob 9 [Img]) sh_3).
-Definition sh_6 : expr := (Select (Pw 0 [Img]) (Glob 1 [(Pw 2 [MaskE])]) sh_5).
-Definition sh_7 : expr := (Select (Glob 11 [(Select (Pw 2 [(Loc 1 12 Img)]) (ErodeP 1 MaskE) FalseC)]) (Glob 13 [(Select (Pw 2 [(Loc 1 12 Img)]) (ErodeP 1 MaskE) FalseC)]) (Select (Pw 2 [(Loc 1 12 Img)]) (ErodeP 1 MaskE) FalseC)).
-Definition sh_8 : expr := (Select (Glob 7 [(Glob 17 [(Glob 16 [(Glob 5 [(Select Img MaskE FalseC); MaskE])])]); MaskE]) MaskE (Const 1)).
-Definition sh_9 : expr := (Glob 6 [sh_8; MaskE]).
-Definition sh_10 : expr := (Glob 14 [(Glob 15 [(Glob 16 [(Glob 5 [(Select Img MaskE FalseC); MaskE])])]); sh_9]).
-Definition sh_11 : expr := (Pw 18 [(Pw 19 [(Glob 20 [(Glob 5 [(Select Img MaskE FalseC); MaskE])])]); (Pw 21 [(Glob 22 [(Glob 5 [(Select Img MaskE FalseC); MaskE])])])]).
-Definition sh_12 : expr := (Select sh_10 sh_11 (Glob 6 [(Select Img MaskE (Const 1)); MaskE])).
-Definition sh_13 : expr := (Select (Pw 0 [Img]) (Glob 1 [(Pw 2 [MaskE])]) sh_12).
-Definition sh_14 : expr := (Select (Select (Glob 23 [(Glob 24 [(Glob 25 [(Const 2); (Select Img MaskE (Const 3))])])]) MaskE Img) MaskE FalseC).
-Definition sh_15 : expr := (Glob 25 [(Const 1); sh_14]).
-Definition sh_16 : expr := (Glob 26 [sh_15]).
-Definition sh_17 : expr := (Glob 23 [sh_16]).
-Definition sh_18 : expr := (Select sh_17 MaskE (Select (Glob 23 [(Glob 24 [(Glob 25 [(Const 2); (Select Img MaskE (Const 3))])])]) MaskE Img)).
-Definition sh_19 : expr := (Select (Select (Glob 23 [(Glob 26 [(Glob 25 [(Const 1); (Select Img MaskE FalseC)])])]) MaskE Img) MaskE (Const 3)).
-Definition sh_20 : expr := (Glob 25 [(Const 2); sh_19]).
-Definition sh_21 : expr := (Glob 24 [sh_20]).
-Definition sh_22 : expr := (Glob 23 [sh_21]).
-Definition sh_23 : expr := (Select sh_22 MaskE (Select (Glob 23 [(Glob 26 [(Glob 25 [(Const 1); (Select Img MaskE FalseC)])])]) MaskE Img)).
-Definition sh_24 : expr := (Pw 27 [Img; sh_18]).
-Definition sh_25 : expr := (Select sh_24 MaskE Img).
-Definition sh_26 : expr := (Pw 27 [sh_23; Img]).
-Definition sh_27 : expr := (Select sh_26 MaskE Img).
-Definition sh_28 : expr := (Select (Select (Glob 23 [(Glob 30 [(Glob 25 [(Const 2); (Select Img MaskE (Const 3))])])]) MaskE Img) MaskE FalseC).
-Definition sh_29 : expr := (Glob 25 [(Const 1); sh_28]).
-Definition sh_30 : expr := (Glob 29 [sh_29]).
-Definition sh_31 : expr := (Glob 23 [sh_30]).
-Definition sh_32 : expr := (Select sh_31 MaskE (Select (Glob 23 [(Glob 30 [(Glob 25 [(Const 2); (Select Img MaskE (Const 3))])])]) MaskE Img)).
-Definition sh_33 : expr := (Select (Select (Glob 23 [(Glob 32 [(Glob 25 [(Const 2); (Select Img MaskE (Const 3))])])]) MaskE Img) MaskE FalseC).
-Definition sh_34 : expr := (Glob 25 [(Const 1); sh_33]).
-Definition sh_35 : expr := (Glob 31 [sh_34]).
-Definition sh_36 : expr := (Glob 23 [sh_35]).
-Definition sh_37 : expr := (Select sh_36 MaskE (Select (Glob 23 [(Glob 32 [(Glob 25 [(Const 2); (Select Img MaskE (Const 3))])])]) MaskE Img)).
-Definition sh_38 : expr := (Select (Select (Glob 23 [(Glob 34 [(Glob 25 [(Const 2); (Select Img MaskE (Const 3))])])]) MaskE Img) MaskE FalseC).
-Definition sh_39 : expr := (Glob 25 [(Const 1); sh_38]).
-Definition sh_40 : expr := (Glob 33 [sh_39]).
-Definition sh_41 : expr := (Glob 23 [sh_40]).
-Definition sh_42 : expr := (Select sh_41 MaskE (Select (Glob 23 [(Glob 34 [(Glob 25 [(Const 2); (Select Img MaskE (Const 3))])])]) MaskE Img)).
-Definition sh_43 : expr := (Pw 28 [sh_32; sh_37; sh_42]).
-Definition sh_44 : expr := (Pw 35 [sh_32; sh_37; sh_42]).
-Definition sh_45 : expr := (Pw 27 [sh_43; sh_44]).
-Definition sh_46 : expr := (Pw 37 [(Pw 38 [(Select (Pw 39 [(Loc 1 40 Img)]) (Erode 1 MaskE) FalseC)]); (Pw 38 [(Select (Pw 39 [(Loc 1 40 Img)]) (Erode 1 MaskE) FalseC)])]).
-Definition sh_47 : expr := (Pw 36 [sh_46]).
-Definition sh_48 : expr := (Pw 27 [(Glob 5 [(Select Img (Erode 1 MaskE) FalseC); (Erode 1 MaskE)]); (Glob 5 [(Select (Loc 1 42 Img) (Erode 1 MaskE) FalseC); (Erode 1 MaskE)])]).
-Definition sh_49 : expr := (Pw 41 [sh_48; sh_48]).
-Definition sh_50 : expr := (Pw 27 [(Glob 5 [(Select Img (Erode 1 MaskE) FalseC); (Erode 1 MaskE)]); (Glob 5 [(Select (Loc 1 43 Img) (Erode 1 MaskE) FalseC); (Erode 1 MaskE)])]).
-Definition sh_51 : expr := (Pw 41 [sh_50; sh_50]).
-Definition sh_52 : expr := (Pw 37 [sh_49; sh_51]).
-Definition sh_53 : expr := (Pw 36 [sh_52]).
-Definition sh_54 : expr := (Glob 7 [sh_53; (Erode 1 MaskE)]).
-Definition sh_55 : expr := (Select sh_54 (Erode 1 MaskE) (Select (Const 1) (Erode 1 MaskE) FalseC)).
-Definition sh_56 : expr := (Pw 41 [(Loc 1 40 (Pw 45 [(Glob 46 [(Select Img MaskE (Const 1))]); (Pw 37 [(Glob 46 [MaskE])])])); (Loc 1 40 (Pw 45 [(Glob 46 [(Select Img MaskE (Const 1))]); (Pw 37 [(Glob 46 [MaskE])])]))]).
-Definition sh_57 : expr := (Pw 37 [sh_56; sh_56]).
-Definition sh_58 : expr := (Pw 36 [sh_57]).
-Definition sh_59 : expr := (Pw 44 [sh_58]).
-Definition sh_60 : expr := (Loc 1 48 sh_58).
-Definition sh_61 : expr := (Pw 44 [(Pw 39 [(Loc 1 40 (Pw 45 [(Glob 46 [(Select Img MaskE (Const 1))]); (Pw 37 [(Glob 46 [MaskE])])]))]); (Pw 39 [(Loc 1 40 (Pw 45 [(Glob 46 [(Select Img MaskE (Const 1))]); (Pw 37 [(Glob 46 [MaskE])])]))])]).
-Definition sh_62 : expr := (Select sh_61 (Pw 44 [(Loc 1 40 (Pw 45 [(Glob 46 [(Select Img MaskE (Const 1))]); (Pw 37 [(Glob 46 [MaskE])])]))]) FalseC).
-Definition sh_63 : expr := (Select sh_62 (Pw 47 [(Loc 1 40 (Pw 45 [(Glob 46 [(Select Img MaskE (Const 1))]); (Pw 37 [(Glob 46 [MaskE])])]))]) FalseC).
-Definition sh_64 : expr := (Select sh_61 (Pw 47 [(Loc 1 40 (Pw 45 [(Glob 46 [(Select Img MaskE (Const 1))]); (Pw 37 [(Glob 46 [MaskE])])]))]) FalseC).
-Definition sh_65 : expr := (Select sh_64 (Pw 44 [(Loc 1 40 (Pw 45 [(Glob 46 [(Select Img MaskE (Const 1))]); (Pw 37 [(Glob 46 [MaskE])])]))]) FalseC).
-Definition sh_66 : expr := (Pw 49 [sh_63; sh_65]).
-Definition sh_67 : expr := (Pw 21 [sh_58]).
-Definition sh_68 : expr := (Select sh_67 (Erode 1 MaskE) FalseC).
-Definition sh_69 : expr := (Select sh_66 sh_68 FalseC).
-Definition sh_70 : expr := (Select sh_60 sh_69 FalseC).
-Definition sh_71 : expr := (Glob 5 [sh_70; sh_69]).
-Definition sh_72 : expr := (Select (Pw 39 [(Loc 1 40 (Pw 45 [(Glob 46 [(Select Img MaskE (Const 1))]); (Pw 37 [(Glob 46 [MaskE])])]))]) sh_69 FalseC).
-Definition sh_73 : expr := (Glob 5 [sh_72; sh_69]).
-Definition sh_74 : expr := (Pw 45 [sh_73; sh_73]).
-Definition sh_75 : expr := (Pw 41 [sh_71; sh_74]).
-Definition sh_76 : expr := (Loc 1 50 sh_58).
-Definition sh_77 : expr := (Select sh_76 sh_69 FalseC).
-Definition sh_78 : expr := (Glob 5 [sh_77; sh_69]).
-Definition sh_79 : expr := (Pw 27 [sh_74]).
-Definition sh_80 : expr := (Pw 41 [sh_78; sh_79]).
-Definition sh_81 : expr := (Pw 37 [sh_75; sh_80]).
-Definition sh_82 : expr := (Select sh_58 sh_69 FalseC).
-Definition sh_83 : expr := (Glob 5 [sh_82; sh_69]).
-Definition sh_84 : expr := (Pw 47 [sh_81; sh_83]).
-Definition sh_85 : expr := (Loc 1 42 sh_58).
-Definition sh_86 : expr := (Select sh_85 sh_69 FalseC).
-Definition sh_87 : expr := (Glob 5 [sh_86; sh_69]).
-Definition sh_88 : expr := (Pw 41 [sh_87; sh_74]).
-Definition sh_89 : expr := (Loc 1 51 sh_58).
-Definition sh_90 : expr := (Select sh_89 sh_69 FalseC).
-Definition sh_91 : expr := (Glob 5 [sh_90; sh_69]).
-Definition sh_92 : expr := (Pw 41 [sh_91; sh_79]).
-Definition sh_93 : expr := (Pw 37 [sh_88; sh_92]).
-Definition sh_94 : expr := (Pw 47 [sh_93; sh_83]).
-Definition sh_95 : expr := (Select sh_84 sh_94 FalseC).
-Definition sh_96 : expr := (Glob 7 [sh_95; sh_69]).
-Definition sh_97 : expr := (Pw 47 [(Pw 39 [(Loc 1 40 (Pw 45 [(Glob 46 [(Select Img MaskE (Const 1))]); (Pw 37 [(Glob 46 [MaskE])])]))]); (Pw 39 [(Loc 1 40 (Pw 45 [(Glob 46 [(Select Img MaskE (Const 1))]); (Pw 37 [(Glob 46 [MaskE])])]))])]).
-Definition sh_98 : expr := (Select sh_97 (Pw 44 [(Loc 1 40 (Pw 45 [(Glob 46 [(Select Img MaskE (Const 1))]); (Pw 37 [(Glob 46 [MaskE])])]))]) FalseC).
-Definition sh_99 : expr := (Select sh_98 (Pw 47 [(Loc 1 40 (Pw 45 [(Glob 46 [(Select Img MaskE (Const 1))]); (Pw 37 [(Glob 46 [MaskE])])]))]) FalseC).
-Definition sh_100 : expr := (Select sh_97 (Pw 47 [(Loc 1 40 (Pw 45 [(Glob 46 [(Select Img MaskE (Const 1))]); (Pw 37 [(Glob 46 [MaskE])])]))]) FalseC).
-Definition sh_101 : expr := (Select sh_100 (Pw 44 [(Loc 1 40 (Pw 45 [(Glob 46 [(Select Img MaskE (Const 1))]); (Pw 37 [(Glob 46 [MaskE])])]))]) FalseC).
-Definition sh_102 : expr := (Pw 49 [sh_99; sh_101]).
-Definition sh_103 : expr := (Select sh_102 sh_68 FalseC).
-Definition sh_104 : expr := (Select sh_60 sh_103 FalseC).
-Definition sh_105 : expr := (Glob 5 [sh_104; sh_103]).
-Definition sh_106 : expr := (Select (Pw 39 [(Loc 1 40 (Pw 45 [(Glob 46 [(Select Img MaskE (Const 1))]); (Pw 37 [(Glob 46 [MaskE])])]))]) sh_103 FalseC).
-Definition sh_107 : expr := (Glob 5 [sh_106; sh_103]).
-Definition sh_108 : expr := (Pw 45 [sh_107; sh_107]).
-Definition sh_109 : expr := (Pw 41 [sh_105; sh_108]).
-Definition sh_110 : expr := (Loc 1 52 sh_58).
-Definition sh_111 : expr := (Select sh_110 sh_103 FalseC).
-Definition sh_112 : expr := (Glob 5 [sh_111; sh_103]).
-Definition sh_113 : expr := (Pw 27 [sh_108]).
-Definition sh_114 : expr := (Pw 41 [sh_112; sh_113]).
-Definition sh_115 : expr := (Pw 37 [sh_109; sh_114]).
-Definition sh_116 : expr := (Select sh_58 sh_103 FalseC).
-Definition sh_117 : expr := (Glob 5 [sh_116; sh_103]).
-Definition sh_118 : expr := (Pw 47 [sh_115; sh_117]).
-Definition sh_119 : expr := (Select sh_85 sh_103 FalseC).
-Definition sh_120 : expr := (Glob 5 [sh_119; sh_103]).
-Definition sh_121 : expr := (Pw 41 [sh_120; sh_108]).
-Definition sh_122 : expr := (Loc 1 53 sh_58).
-Definition sh_123 : expr := (Select sh_122 sh_103 FalseC).
-Definition sh_124 : expr := (Glob 5 [sh_123; sh_103]).
-Definition sh_125 : expr := (Pw 41 [sh_124; sh_113]).
-Definition sh_126 : expr := (Pw 37 [sh_121; sh_125]).
-Definition sh_127 : expr := (Pw 47 [sh_126; sh_117]).
-Definition sh_128 : expr := (Select sh_118 sh_127 FalseC).
-Definition sh_129 : expr := (Glob 7 [sh_128; sh_103]).
-Definition sh_130 : expr := (Loc 1 54 sh_58).
-Definition sh_131 : expr := (Select sh_98 (Pw 44 [(Loc 1 40 (Pw 45 [(Glob 46 [(Select Img MaskE (Const 1))]); (Pw 37 [(Glob 46 [MaskE])])]))]) FalseC).
-Definition sh_132 : expr := (Select sh_100 (Pw 47 [(Loc 1 40 (Pw 45 [(Glob 46 [(Select Img MaskE (Const 1))]); (Pw 37 [(Glob 46 [MaskE])])]))]) FalseC).
-Definition sh_133 : expr := (Pw 49 [sh_131; sh_132]).
-Definition sh_134 : expr := (Select sh_133 sh_68 FalseC).
-Definition sh_135 : expr := (Select sh_130 sh_134 FalseC).
-Definition sh_136 : expr := (Glob 5 [sh_135; sh_134]).
-Definition sh_137 : expr := (Select (Pw 39 [(Loc 1 40 (Pw 45 [(Glob 46 [(Select Img MaskE (Const 1))]); (Pw 37 [(Glob 46 [MaskE])])]))]) sh_134 FalseC).
-Definition sh_138 : expr := (Glob 5 [sh_137; sh_134]).
-Definition sh_139 : expr := (Pw 45 [sh_138; sh_138]).
-Definition sh_140 : expr := (Pw 41 [sh_136; sh_139]).
-Definition sh_141 : expr := (Select sh_110 sh_134 FalseC).
-Definition sh_142 : expr := (Glob 5 [sh_141; sh_134]).
-Definition sh_143 : expr := (Pw 27 [sh_139]).
-Definition sh_144 : expr := (Pw 41 [sh_142; sh_143]).
-Definition sh_145 : expr := (Pw 37 [sh_140; sh_144]).
-Definition sh_146 : expr := (Select sh_58 sh_134 FalseC).
-Definition sh_147 : expr := (Glob 5 [sh_146; sh_134]).
-Definition sh_148 : expr := (Pw 47 [sh_145; sh_147]).
-Definition sh_149 : expr := (Loc 1 43 sh_58).
-Definition sh_150 : expr := (Select sh_149 sh_134 FalseC).
-Definition sh_151 : expr := (Glob 5 [sh_150; sh_134]).
-Definition sh_152 : expr := (Pw 41 [sh_151; sh_139]).
-Definition sh_153 : expr := (Select sh_122 sh_134 FalseC).
-Definition sh_154 : expr := (Glob 5 [sh_153; sh_134]).
-Definition sh_155 : expr := (Pw 41 [sh_154; sh_143]).
-Definition sh_156 : expr := (Pw 37 [sh_152; sh_155]).
-Definition sh_157 : expr := (Pw 47 [sh_156; sh_147]).
-Definition sh_158 : expr := (Select sh_148 sh_157 FalseC).
-Definition sh_159 : expr := (Glob 7 [sh_158; sh_134]).
-Definition sh_160 : expr := (Select sh_62 (Pw 44 [(Loc 1 40 (Pw 45 [(Glob 46 [(Select Img MaskE (Const 1))]); (Pw 37 [(Glob 46 [MaskE])])]))]) FalseC).
-Definition sh_161 : expr := (Select sh_64 (Pw 47 [(Loc 1 40 (Pw 45 [(Glob 46 [(Select Img MaskE (Const 1))]); (Pw 37 [(Glob 46 [MaskE])])]))]) FalseC).
-Definition sh_162 : expr := (Pw 49 [sh_160; sh_161]).
-Definition sh_163 : expr := (Select sh_162 sh_68 FalseC).
-Definition sh_164 : expr := (Select sh_130 sh_163 FalseC).
-Definition sh_165 : expr := (Glob 5 [sh_164; sh_163]).
-Definition sh_166 : expr := (Select (Pw 39 [(Loc 1 40 (Pw 45 [(Glob 46 [(Select Img MaskE (Const 1))]); (Pw 37 [(Glob 46 [MaskE])])]))]) sh_163 FalseC).
-Definition sh_167 : expr := (Glob 5 [sh_166; sh_163]).
-Definition sh_168 : expr := (Pw 45 [sh_167; sh_167]).
-Definition sh_169 : expr := (Pw 41 [sh_165; sh_168]).
-Definition sh_170 : expr := (Select sh_89 sh_163 FalseC).
-Definition sh_171 : expr := (Glob 5 [sh_170; sh_163]).
-Definition sh_172 : expr := (Pw 27 [sh_168]).
-Definition sh_173 : expr := (Pw 41 [sh_171; sh_172]).
-Definition sh_174 : expr := (Pw 37 [sh_169; sh_173]).
-Definition sh_175 : expr := (Select sh_58 sh_163 FalseC).
-Definition sh_176 : expr := (Glob 5 [sh_175; sh_163]).
-Definition sh_177 : expr := (Pw 47 [sh_174; sh_176]).
-Definition sh_178 : expr := (Select sh_149 sh_163 FalseC).
-Definition sh_179 : expr := (Glob 5 [sh_178; sh_163]).
-Definition sh_180 : expr := (Pw 41 [sh_179; sh_168]).
-Definition sh_181 : expr := (Select sh_76 sh_163 FalseC).
-Definition sh_182 : expr := (Glob 5 [sh_181; sh_163]).
-Definition sh_183 : expr := (Pw 41 [sh_182; sh_172]).
-Definition sh_184 : expr := (Pw 37 [sh_180; sh_183]).
-Definition sh_185 : expr := (Pw 47 [sh_184; sh_176]).
-Definition sh_186 : expr := (Select sh_177 sh_185 FalseC).
-Definition sh_187 : expr := (Glob 7 [sh_186; sh_163]).
-Definition sh_188 : expr := (Select sh_187 sh_163 (Const 1)).
-Definition sh_189 : expr := (Select sh_159 sh_134 sh_188).
-Definition sh_190 : expr := (Select sh_129 sh_103 sh_189).
-Definition sh_191 : expr := (Select sh_96 sh_69 sh_190).
-Definition sh_192 : expr := (Select sh_59 sh_191 FalseC).
-Definition sh_193 : expr := (Glob 56 [sh_192]).
-Definition sh_194 : expr := (Glob 15 [sh_193]).
-Definition sh_195 : expr := (Pw 55 [sh_194]).
-Definition sh_196 : expr := (Pw 37 [sh_194]).
-Definition sh_197 : expr := (Glob 58 [sh_196]).
-Definition sh_198 : expr := (Glob 17 [sh_193]).
-Definition sh_199 : expr := (Glob 61 [sh_194]).
-Definition sh_200 : expr := (Pw 37 [sh_199]).
-Definition sh_201 : expr := (Glob 60 [sh_192; sh_198; sh_200]).
-Definition sh_202 : expr := (Glob 59 [sh_201]).
-Definition sh_203 : expr := (Pw 21 [sh_202]).
-Definition sh_204 : expr := (Glob 57 [sh_197; sh_203]).
-Definition sh_205 : expr := (Glob 14 [sh_204; sh_198]).
-Definition sh_206 : expr := (Select sh_192 sh_195 sh_205).
-Definition sh_207 : expr := (Select (Pw 37 [(Glob 62 [(Select (Pw 0 [Img]) MaskE FalseC)]); (Pw 41 [(Glob 62 [(Pw 2 [MaskE])]); Img])]) MaskE Img).
-Definition sh_208 : expr := (Pw 27 [(Pw 45 [(Glob 63 [(Pw 38 [(Select (Pw 0 [Img]) MaskE FalseC)])]); (Glob 63 [MaskE])]); (Pw 38 [(Pw 45 [(Glob 63 [(Select (Pw 0 [Img]) MaskE FalseC)]); (Glob 63 [MaskE])])])]).
-Definition sh_209 : expr := (Select (Glob 7 [(Glob 20 [(Glob 5 [(Select (Pw 65 [Img]) MaskE FalseC); MaskE])]); MaskE]) MaskE (Pw 65 [Img])).
-Definition sh_210 : expr := (Pw 55 [(Glob 20 [(Glob 5 [(Select (Pw 65 [Img]) MaskE FalseC); MaskE])]); (Glob 22 [(Glob 5 [(Select (Pw 65 [Img]) MaskE FalseC); MaskE])])]).
-Definition sh_211 : expr := (Pw 27 [(Glob 5 [(Select (Pw 65 [Img]) MaskE FalseC); MaskE]); (Glob 20 [(Glob 5 [(Select (Pw 65 [Img]) MaskE FalseC); MaskE])])]).
-Definition sh_212 : expr := (Pw 27 [(Glob 22 [(Glob 5 [(Select (Pw 65 [Img]) MaskE FalseC); MaskE])]); (Glob 20 [(Glob 5 [(Select (Pw 65 [Img]) MaskE FalseC); MaskE])])]).
-Definition sh_213 : expr := (Pw 45 [sh_211; sh_212]).
-Definition sh_214 : expr := (Glob 7 [sh_213; MaskE]).
-Definition sh_215 : expr := (Select sh_214 MaskE (Pw 65 [Img])).
-Definition sh_216 : expr := (Select sh_209 sh_210 sh_215).
-Definition sh_217 : expr := (Select (Pw 65 [Img]) (Pw 55 [(Glob 66 [MaskE])]) sh_216).
-Definition sh_218 : expr := (Select (Pw 65 [Img]) (Const 4) sh_217).
-Definition sh_219 : expr := (Glob 5 [(Select (Const 5) (Select (Pw 21 [Img]) MaskE FalseC) FalseC); (Select (Pw 21 [Img]) MaskE FalseC)]).
-Definition sh_220 : expr := (Glob 5 [(Select (Const 6) (Select (Pw 21 [Img]) MaskE FalseC) FalseC); (Select (Pw 21 [Img]) MaskE FalseC)]).
-Definition sh_221 : expr := (Glob 5 [(Select (Const 2) (Select (Pw 21 [Img]) MaskE FalseC) FalseC); (Select (Pw 21 [Img]) MaskE FalseC)]).
-Definition sh_222 : expr := (Pw 65 [sh_219; sh_219; sh_220; sh_220; sh_220; sh_221]).
-Definition sh_223 : expr := (Glob 69 [sh_222]).
-Definition sh_224 : expr := (Glob 5 [(Select Img (Select (Pw 21 [Img]) MaskE FalseC) FalseC); (Select (Pw 21 [Img]) MaskE FalseC)]).
-Definition sh_225 : expr := (Glob 68 [sh_223; sh_224]).
-Definition sh_226 : expr := (Glob 14 [sh_225]).
-Definition sh_227 : expr := (Glob 67 [sh_226]).
-Definition sh_228 : expr := (Glob 60 [sh_227]).
-Definition sh_229 : expr := (Pw 21 [sh_228]).
-Definition sh_230 : expr := (Select (Const 3) sh_229 sh_228).
-Definition sh_231 : expr := (Pw 19 [sh_230]).
-Definition sh_232 : expr := (Select FalseC sh_231 sh_230).
-Definition sh_233 : expr := (Select sh_232 (Const 7) sh_228).
-Definition sh_234 : expr := (Select sh_233 (Glob 13 [(Select (Pw 21 [Img]) MaskE FalseC)]) Img).
-Definition sh_235 : expr := (Select (Pw 45 [(Glob 70 [(Select Img MaskE FalseC); MaskE]); (Glob 70 [(Pw 71 [MaskE])])]) (Pw 72 [(Glob 70 [(Pw 71 [MaskE])])]) (Glob 70 [(Select Img MaskE FalseC); MaskE])).
-Definition sh_236 : expr := (Pw 55 [(Glob 20 [(Glob 5 [(Select Img MaskE FalseC); MaskE])]); (Glob 22 [(Glob 5 [(Select Img MaskE FalseC); MaskE])])]).
-Definition sh_237 : expr := (Pw 75 [Img; (Glob 20 [(Glob 5 [(Select Img MaskE FalseC); MaskE])]); (Glob 22 [(Glob 5 [(Select Img MaskE FalseC); MaskE])])]).
-Definition sh_238 : expr := (Select sh_237 MaskE FalseC).
-Definition sh_239 : expr := (Glob 74 [sh_238; (Glob 20 [(Glob 5 [(Select Img MaskE FalseC); MaskE])]); (Glob 22 [(Glob 5 [(Select Img MaskE FalseC); MaskE])])]).
-Definition sh_240 : expr := (Select Img sh_236 sh_239).
-Definition sh_241 : expr := (Select (Const 8) (Glob 73 [(Glob 5 [(Select Img MaskE FalseC); MaskE])]) sh_240).
-Definition sh_242 : expr := (Select (Glob 11 [(Select (Select (Pw 2 [(Loc 1 12 Img)]) (ErodeP 1 MaskE) FalseC) MaskE FalseC)]) (Glob 13 [(Select (Select (Pw 2 [(Loc 1 12 Img)]) (ErodeP 1 MaskE) FalseC) MaskE FalseC)]) (Select (Select (Pw 2 [(Loc 1 12 Img)]) (ErodeP 1 MaskE) FalseC) MaskE FalseC)).
-Definition sh_243 : expr := (Glob 78 [(Glob 79 [(Glob 17 [(Glob 80 [(Select (Pw 0 [(Pw 71 [Img])]) MaskE FalseC)])])]); (Glob 17 [(Glob 80 [(Select (Pw 0 [(Pw 71 [Img])]) MaskE FalseC)])]); (Glob 15 [(Glob 80 [(Select (Pw 0 [(Pw 71 [Img])]) MaskE FalseC)])]); (Glob 81 [(Glob 80 [(Select (Pw 0 [(Pw 71 [Img])]) MaskE FalseC)])])]).
-Definition sh_244 : expr := (Glob 82 [(Glob 79 [(Glob 17 [(Glob 80 [(Select (Pw 0 [(Pw 71 [Img])]) MaskE FalseC)])])]); (Glob 17 [(Glob 80 [(Select (Pw 0 [(Pw 71 [Img])]) MaskE FalseC)])]); (Glob 15 [(Glob 80 [(Select (Pw 0 [(Pw 71 [Img])]) MaskE FalseC)])]); (Glob 81 [(Glob 80 [(Select (Pw 0 [(Pw 71 [Img])]) MaskE FalseC)])])]).
-Definition sh_245 : expr := (Glob 77 [sh_243; sh_244]).
-Definition sh_246 : expr := (Select Img sh_245 (Const 8)).
-Definition sh_247 : expr := (Select sh_246 MaskE Img).
-Definition sh_248 : expr := (Glob 78 [(Glob 17 [(Glob 80 [(Select (Pw 0 [(Pw 71 [Img])]) MaskE FalseC)])]); (Glob 15 [(Glob 80 [(Select (Pw 0 [(Pw 71 [Img])]) MaskE FalseC)])]); (Glob 81 [(Glob 80 [(Select (Pw 0 [(Pw 71 [Img])]) MaskE FalseC)])])]).
-Definition sh_249 : expr := (Glob 82 [(Glob 17 [(Glob 80 [(Select (Pw 0 [(Pw 71 [Img])]) MaskE FalseC)])]); (Glob 15 [(Glob 80 [(Select (Pw 0 [(Pw 71 [Img])]) MaskE FalseC)])]); (Glob 81 [(Glob 80 [(Select (Pw 0 [(Pw 71 [Img])]) MaskE FalseC)])])]).
-Definition sh_250 : expr := (Glob 77 [sh_248; sh_249]).
-Definition sh_251 : expr := (Select Img sh_250 (Const 8)).
-Definition sh_252 : expr := (Select sh_251 MaskE Img).
-Definition sh_253 : expr := (Select sh_247 (Const 10) sh_252).
-Definition sh_254 : expr := (Glob 78 [(Glob 79 [(Glob 17 [(Glob 80 [(Select (Pw 0 [Img]) MaskE FalseC)])])]); (Glob 17 [(Glob 80 [(Select (Pw 0 [Img]) MaskE FalseC)])]); (Glob 15 [(Glob 80 [(Select (Pw 0 [Img]) MaskE FalseC)])]); (Glob 81 [(Glob 80 [(Select (Pw 0 [Img]) MaskE FalseC)])])]).
-Definition sh_255 : expr := (Glob 82 [(Glob 79 [(Glob 17 [(Glob 80 [(Select (Pw 0 [Img]) MaskE FalseC)])])]); (Glob 17 [(Glob 80 [(Select (Pw 0 [Img]) MaskE FalseC)])]); (Glob 15 [(Glob 80 [(Select (Pw 0 [Img]) MaskE FalseC)])]); (Glob 81 [(Glob 80 [(Select (Pw 0 [Img]) MaskE FalseC)])])]).
-Definition sh_256 : expr := (Glob 77 [sh_254; sh_255]).
-Definition sh_257 : expr := (Select Img sh_256 (Const 8)).
-Definition sh_258 : expr := (Select sh_257 MaskE Img).
-Definition sh_259 : expr := (Glob 78 [(Glob 17 [(Glob 80 [(Select (Pw 0 [Img]) MaskE FalseC)])]); (Glob 15 [(Glob 80 [(Select (Pw 0 [Img]) MaskE FalseC)])]); (Glob 81 [(Glob 80 [(Select (Pw 0 [Img]) MaskE FalseC)])])]).
-Definition sh_260 : expr := (Glob 82 [(Glob 17 [(Glob 80 [(Select (Pw 0 [Img]) MaskE FalseC)])]); (Glob 15 [(Glob 80 [(Select (Pw 0 [Img]) MaskE FalseC)])]); (Glob 81 [(Glob 80 [(Select (Pw 0 [Img]) MaskE FalseC)])])]).
-Definition sh_261 : expr := (Glob 77 [sh_259; sh_260]).
-Definition sh_262 : expr := (Select Img sh_261 (Const 8)).
-Definition sh_263 : expr := (Select sh_262 MaskE Img).
-Definition sh_264 : expr := (Select sh_258 (Const 10) sh_263).
-Definition sh_265 : expr := (Glob 5 [(Select (Const 11) (Select (Pw 0 [(Pw 71 [Img])]) MaskE FalseC) FalseC); (Select (Pw 0 [(Pw 71 [Img])]) MaskE FalseC)]).
-Definition sh_266 : expr := (Select (Glob 76 [(Select (Pw 0 [(Pw 71 [Img])]) MaskE FalseC)]) (Select (Pw 0 [(Pw 71 [Img])]) MaskE FalseC) FalseC).
-Definition sh_267 : expr := (Glob 5 [sh_266; (Select (Pw 0 [(Pw 71 [Img])]) MaskE FalseC)]).
-Definition sh_268 : expr := (Glob 14 [(Glob 85 [(Select (Pw 0 [(Pw 71 [Img])]) MaskE FalseC)]); (Pw 0 [(Select (Pw 0 [(Pw 71 [Img])]) MaskE FalseC)])]).
-Definition sh_269 : expr := (Glob 84 [sh_265; sh_267; sh_268]).
-Definition sh_270 : expr := (Pw 10 [sh_269]).
-Definition sh_271 : expr := (Glob 83 [(Pw 10 [(Pw 0 [(Select (Pw 0 [(Pw 71 [Img])]) MaskE FalseC)])]); (Pw 10 [(Glob 14 [(Pw 0 [(Select (Pw 0 [(Pw 71 [Img])]) MaskE FalseC)])])]); (Pw 10 [(Glob 14 [(Pw 0 [(Select (Pw 0 [(Pw 71 [Img])]) MaskE FalseC)])])]); sh_270]).
-Definition sh_272 : expr := (Pw 71 [sh_271]).
-Definition sh_273 : expr := (Select sh_272 MaskE Img).
-Definition sh_274 : expr := (Glob 84 [sh_265; sh_267; (Glob 14 [(Pw 0 [(Select (Pw 0 [(Pw 71 [Img])]) MaskE FalseC)])])]).
-Definition sh_275 : expr := (Pw 10 [sh_274]).
-Definition sh_276 : expr := (Glob 83 [(Pw 10 [(Pw 0 [(Select (Pw 0 [(Pw 71 [Img])]) MaskE FalseC)])]); (Pw 10 [(Glob 14 [(Pw 0 [(Select (Pw 0 [(Pw 71 [Img])]) MaskE FalseC)])])]); (Pw 10 [(Glob 14 [(Pw 0 [(Select (Pw 0 [(Pw 71 [Img])]) MaskE FalseC)])])]); sh_275]).
-Definition sh_277 : expr := (Pw 71 [sh_276]).
-Definition sh_278 : expr := (Select sh_277 MaskE Img).
-Definition sh_279 : expr := (Select sh_273 (Const 10) sh_278).
-
-(* median_filter_unmasked_minmax:  Select (Pw copy [Img]) (Glob all [Pw not [MaskE]]) (Select (Glob take [Glob rank_order.translation [Glob gather [Select (Img) (MaskE) (FalseC); MaskE]]; Glob _filter.median_filter [Select (Glob scatter [Select (Glob rank_order.ranks [Glob gather [Select (Img) (MaskE) (FalseC); MaskE]]) (Glob needs_ranking [Img]) (Glob gather [Select (Img) (MaskE) (FalseC); MaskE]); MaskE]) (MaskE) (Const<zeros_uint8>); Pw ascontiguousarray [MaskE]]]) (Glob needs_ranking [Img]) (Glob _filter.median_filter [Select (Glob scatter [Select (Glob rank_order.ranks [Glob gather [Select (Img) (MaskE) (FalseC); MaskE]])  ... *)
-Definition prog_median_filter_unmasked_minmax : expr :=
-  sh_6.
+(* median_filter_unmasked_minmax (20 DAG nodes, 65 as a tree):  Select (Pw copy [Img]) (Glob all [Pw not [MaskE]]) (Select (Glob take [Glob rank_order.translation [Glob gather [Select (Img) (MaskE) (FalseC); MaskE]]; Glob _filter.median_filter [Select (Glob scatter [Select (Glob rank_order.ranks [Glob gather [Select (Img) (MaskE) (FalseC); MaskE]]) (Glob needs_ranking [Img]) (Glob gather [Select (Img) (MaskE) (FalseC); MaskE]); MaskE]) (MaskE) (Const<zeros_uint8>); Pw ascontiguousarray [MaskE]]]) (Glob needs_ranking [Img]) (Glob _filter.median_filter [Select (Glob scatter [Select (Glob rank_order.ranks [Glob gather [Select (Img) (MaskE) (FalseC); MaskE]])  ... *)
+Definition prog_median_filter_unmasked_minmax : prog :=
+  ([(Glob 3 [Img]);
+    (Glob 6 [(Select Img MaskE FalseC); MaskE]);
+    (Glob 7 [(Select (Glob 8 [(Select (Glob 9 [(Ref 1)]) (Ref 0) (Ref 1)); MaskE]) MaskE (Const 0)); (Pw 10 [MaskE])])],
+   (Select (Pw 2 [Img]) (Glob 0 [(Pw 1 [MaskE])]) (Select (Glob 4 [(Glob 5 [(Ref 1)]); (Ref 2)]) (Ref 0) (Ref 2)))).
 Example median_filter_unmasked_minmax_rejected : accepts prog_median_filter_unmasked_minmax = false.
 Proof. vm_compute. reflexivity. Qed.
 
-(* regional_maximum_unmasked_ties:  Select (Glob one_pixel_per_component(edt,label,rank_order,maximum_position) [Select (Pw not [Loc 1 has_greater_neighbour (Img)]) (ErodeP 1 (MaskE)) (FalseC)]) (Glob any [Select (Pw not [Loc 1 has_greater_neighbour (Img)]) (ErodeP 1 (MaskE)) (FalseC)]) (Select (Pw not [Loc 1 has_greater_neighbour (Img)]) (ErodeP 1 (MaskE)) (FalseC)) *)
-Definition prog_regional_maximum_unmasked_ties : expr :=
-  sh_7.
+(* regional_maximum_unmasked_ties (10 DAG nodes, 24 as a tree):  Select (Glob one_pixel_per_component(edt,label,rank_order,maximum_position) [Select (Pw not [LocS 0 has_greater_structure_neighbour (Img)]) (ErodeS 0 (MaskE)) (FalseC)]) (Glob any [Select (Pw not [LocS 0 has_greater_structure_neighbour (Img)]) (ErodeS 0 (MaskE)) (FalseC)]) (Select (Pw not [LocS 0 has_greater_structure_neighbour (Img)]) (ErodeS 0 (MaskE)) (FalseC)) *)
+Definition prog_regional_maximum_unmasked_ties : prog :=
+  ([(Select (Pw 1 [(LocS 0 12 Img)]) (ErodeS 0 MaskE) FalseC)],
+   (Select (Glob 13 [(Ref 0)]) (Glob 11 [(Ref 0)]) (Select (Pw 1 [(LocS 0 12 Img)]) (ErodeS 0 MaskE) FalseC))).
 Example regional_maximum_unmasked_ties_rejected : accepts prog_regional_maximum_unmasked_ties = false.
 Proof. vm_compute. reflexivity. Qed.
 
-(* median_filter:  Select (Pw copy [Img]) (Glob all [Pw not [MaskE]]) (Select (Glob index [Glob unpack1 [Glob rank_order [Glob gather [Select (Img) (MaskE) (FalseC); MaskE]]]; Glob _filter.median_filter [Select (Glob scatter [Glob unpack0 [Glob rank_order [Glob gather [Select (Img) (MaskE) (FalseC); MaskE]]]; MaskE]) (MaskE) (Const<zeros(..)>); MaskE]]) (Pw or [Pw lt [Glob min [Glob gather [Select (Img) (MaskE) (FalseC); MaskE]]]; Pw gt [Glob max [Glob gather [Select (Img) (MaskE) (FalseC); MaskE]]]]) (Glob _filter.median_filter [Select (Img) (MaskE) (Const<zeros(..)>); MaskE])) *)
-Definition prog_median_filter : expr :=
-  sh_13.
+(* median_filter (25 DAG nodes, 54 as a tree):  Select (Pw copy [Img]) (Glob all [Pw not [MaskE]]) (Select (Glob index [Glob unpack1 [Glob rank_order [Glob gather [Select (Img) (MaskE) (FalseC); MaskE]]]; Glob _filter.median_filter [Select (Glob scatter [Glob unpack0 [Glob rank_order [Glob gather [Select (Img) (MaskE) (FalseC); MaskE]]]; MaskE]) (MaskE) (Const<zeros(..)>); MaskE]]) (Pw or [Pw lt [Glob min [Glob gather [Select (Img) (MaskE) (FalseC); MaskE]]]; Pw gt [Glob max [Glob gather [Select (Img) (MaskE) (FalseC); MaskE]]]]) (Glob _filter.median_filter [Select (Img) (MaskE) (Const<zeros(..)>); MaskE])) *)
+Definition prog_median_filter : prog :=
+  ([(Glob 6 [(Select Img MaskE FalseC); MaskE]);
+    (Glob 21 [(Ref 0)])],
+   (Select (Pw 2 [Img]) (Glob 0 [(Pw 1 [MaskE])]) (Select (Glob 19 [(Glob 20 [(Ref 1)]); (Glob 7 [(Select (Glob 8 [(Glob 22 [(Ref 1)]); MaskE]) MaskE (Const 1)); MaskE])]) (Pw 14 [(Pw 15 [(Glob 16 [(Ref 0)])]); (Pw 17 [(Glob 18 [(Ref 0)])])]) (Glob 7 [(Select Img MaskE (Const 1)); MaskE])))).
 Example median_filter_ok : accepts prog_median_filter = true.
 Proof. vm_compute. reflexivity. Qed.
 
-(* grey_erosion:  Select (Glob cropiradius:-iradius,iradius:-iradius [Glob grey_erosion [Glob setsliceiradius:-iradius,iradius:-iradius [Const<ones(..)>; Select (Img) (MaskE) (Const<1>)]]]) (MaskE) (Img) *)
-Definition prog_grey_erosion : expr :=
-  (Select (Glob 23 [(Glob 24 [(Glob 25 [(Const 2); (Select Img MaskE (Const 3))])])]) MaskE Img).
+(* grey_erosion (9 DAG nodes, 11 as a tree):  Select (Glob cropiradius:-iradius,iradius:-iradius [Glob grey_erosion [Glob setsliceiradius:-iradius,iradius:-iradius [Const<ones(..)>; Select (Img) (MaskE) (Const<1>)]]]) (MaskE) (Img) *)
+Definition prog_grey_erosion : prog :=
+  ([],
+   (Select (Glob 23 [(Glob 24 [(Glob 25 [(Const 2); (Select Img MaskE (Const 3))])])]) MaskE Img)).
 Example grey_erosion_ok : accepts prog_grey_erosion = true.
 Proof. vm_compute. reflexivity. Qed.
 
-(* grey_dilation:  Select (Glob cropiradius:-iradius,iradius:-iradius [Glob grey_dilation [Glob setsliceiradius:-iradius,iradius:-iradius [Const<zeros(..)>; Select (Img) (MaskE) (FalseC)]]]) (MaskE) (Img) *)
-Definition prog_grey_dilation : expr :=
-  (Select (Glob 23 [(Glob 26 [(Glob 25 [(Const 1); (Select Img MaskE FalseC)])])]) MaskE Img).
+(* grey_dilation (9 DAG nodes, 11 as a tree):  Select (Glob cropiradius:-iradius,iradius:-iradius [Glob grey_dilation [Glob setsliceiradius:-iradius,iradius:-iradius [Const<zeros(..)>; Select (Img) (MaskE) (FalseC)]]]) (MaskE) (Img) *)
+Definition prog_grey_dilation : prog :=
+  ([],
+   (Select (Glob 23 [(Glob 26 [(Glob 25 [(Const 1); (Select Img MaskE FalseC)])])]) MaskE Img)).
 Example grey_dilation_ok : accepts prog_grey_dilation = true.
 Proof. vm_compute. reflexivity. Qed.
 
-(* opening:  Select (Glob cropiradius:-iradius,iradius:-iradius [Glob grey_dilation [Glob setsliceiradius:-iradius,iradius:-iradius [Const<zeros(..)>; Select (Select (Glob cropiradius:-iradius,iradius:-iradius [Glob grey_erosion [Glob setsliceiradius:-iradius,iradius:-iradius [Const<ones(..)>; Select (Img) (MaskE) (Const<1>)]]]) (MaskE) (Img)) (MaskE) (FalseC)]]]) (MaskE) (Select (Glob cropiradius:-iradius,iradius:-iradius [Glob grey_erosion [Glob setsliceiradius:-iradius,iradius:-iradius [Const<ones(..)>; Select (Img) (MaskE) (Const<1>)]]]) (MaskE) (Img)) *)
-Definition prog_opening : expr :=
-  sh_18.
+(* opening (16 DAG nodes, 31 as a tree):  Select (Glob cropiradius:-iradius,iradius:-iradius [Glob grey_dilation [Glob setsliceiradius:-iradius,iradius:-iradius [Const<zeros(..)>; Select (Select (Glob cropiradius:-iradius,iradius:-iradius [Glob grey_erosion [Glob setsliceiradius:-iradius,iradius:-iradius [Const<ones(..)>; Select (Img) (MaskE) (Const<1>)]]]) (MaskE) (Img)) (MaskE) (FalseC)]]]) (MaskE) (Select (Glob cropiradius:-iradius,iradius:-iradius [Glob grey_erosion [Glob setsliceiradius:-iradius,iradius:-iradius [Const<ones(..)>; Select (Img) (MaskE) (Const<1>)]]]) (MaskE) (Img)) *)
+Definition prog_opening : prog :=
+  ([(Select (Glob 23 [(Glob 24 [(Glob 25 [(Const 2); (Select Img MaskE (Const 3))])])]) MaskE Img)],
+   (Select (Glob 23 [(Glob 26 [(Glob 25 [(Const 1); (Select (Ref 0) MaskE FalseC)])])]) MaskE (Select (Glob 23 [(Glob 24 [(Glob 25 [(Const 2); (Select Img MaskE (Const 3))])])]) MaskE Img))).
 Example opening_ok : accepts prog_opening = true.
 Proof. vm_compute. reflexivity. Qed.
 
-(* closing:  Select (Glob cropiradius:-iradius,iradius:-iradius [Glob grey_erosion [Glob setsliceiradius:-iradius,iradius:-iradius [Const<ones(..)>; Select (Select (Glob cropiradius:-iradius,iradius:-iradius [Glob grey_dilation [Glob setsliceiradius:-iradius,iradius:-iradius [Const<zeros(..)>; Select (Img) (MaskE) (FalseC)]]]) (MaskE) (Img)) (MaskE) (Const<1>)]]]) (MaskE) (Select (Glob cropiradius:-iradius,iradius:-iradius [Glob grey_dilation [Glob setsliceiradius:-iradius,iradius:-iradius [Const<zeros(..)>; Select (Img) (MaskE) (FalseC)]]]) (MaskE) (Img)) *)
-Definition prog_closing : expr :=
-  sh_23.
+(* closing (16 DAG nodes, 31 as a tree):  Select (Glob cropiradius:-iradius,iradius:-iradius [Glob grey_erosion [Glob setsliceiradius:-iradius,iradius:-iradius [Const<ones(..)>; Select (Select (Glob cropiradius:-iradius,iradius:-iradius [Glob grey_dilation [Glob setsliceiradius:-iradius,iradius:-iradius [Const<zeros(..)>; Select (Img) (MaskE) (FalseC)]]]) (MaskE) (Img)) (MaskE) (Const<1>)]]]) (MaskE) (Select (Glob cropiradius:-iradius,iradius:-iradius [Glob grey_dilation [Glob setsliceiradius:-iradius,iradius:-iradius [Const<zeros(..)>; Select (Img) (MaskE) (FalseC)]]]) (MaskE) (Img)) *)
+Definition prog_closing : prog :=
+  ([(Select (Glob 23 [(Glob 26 [(Glob 25 [(Const 1); (Select Img MaskE FalseC)])])]) MaskE Img)],
+   (Select (Glob 23 [(Glob 24 [(Glob 25 [(Const 2); (Select (Ref 0) MaskE (Const 3))])])]) MaskE (Select (Glob 23 [(Glob 26 [(Glob 25 [(Const 1); (Select Img MaskE FalseC)])])]) MaskE Img))).
 Example closing_ok : accepts prog_closing = true.
 Proof. vm_compute. reflexivity. Qed.
 
-(* white_tophat:  Select (Pw sub [Img; Select (Glob cropiradius:-iradius,iradius:-iradius [Glob grey_dilation [Glob setsliceiradius:-iradius,iradius:-iradius [Const<zeros(..)>; Select (Select (Glob cropiradius:-iradius,iradius:-iradius [Glob grey_erosion [Glob setsliceiradius:-iradius,iradius:-iradius [Const<ones(..)>; Select (Img) (MaskE) (Const<1>)]]]) (MaskE) (Img)) (MaskE) (FalseC)]]]) (MaskE) (Select (Glob cropiradius:-iradius,iradius:-iradius [Glob grey_erosion [Glob setsliceiradius:-iradius,iradius:-iradius [Const<ones(..)>; Select (Img) (MaskE) (Const<1>)]]]) (MaskE) (Img))]) (MaskE) (Img) *)
-Definition prog_white_tophat : expr :=
-  sh_25.
+(* white_tophat (18 DAG nodes, 36 as a tree):  Select (Pw sub [Img; Select (Glob cropiradius:-iradius,iradius:-iradius [Glob grey_dilation [Glob setsliceiradius:-iradius,iradius:-iradius [Const<zeros(..)>; Select (Select (Glob cropiradius:-iradius,iradius:-iradius [Glob grey_erosion [Glob setsliceiradius:-iradius,iradius:-iradius [Const<ones(..)>; Select (Img) (MaskE) (Const<1>)]]]) (MaskE) (Img)) (MaskE) (FalseC)]]]) (MaskE) (Select (Glob cropiradius:-iradius,iradius:-iradius [Glob grey_erosion [Glob setsliceiradius:-iradius,iradius:-iradius [Const<ones(..)>; Select (Img) (MaskE) (Const<1>)]]]) (MaskE) (Img))]) (MaskE) (Img) *)
+Definition prog_white_tophat : prog :=
+  ([(Select (Glob 23 [(Glob 24 [(Glob 25 [(Const 2); (Select Img MaskE (Const 3))])])]) MaskE Img)],
+   (Select (Pw 27 [Img; (Select (Glob 23 [(Glob 26 [(Glob 25 [(Const 1); (Select (Ref 0) MaskE FalseC)])])]) MaskE (Ref 0))]) MaskE Img)).
 Example white_tophat_ok : accepts prog_white_tophat = true.
 Proof. vm_compute. reflexivity. Qed.
 
-(* black_tophat:  Select (Pw sub [Select (Glob cropiradius:-iradius,iradius:-iradius [Glob grey_erosion [Glob setsliceiradius:-iradius,iradius:-iradius [Const<ones(..)>; Select (Select (Glob cropiradius:-iradius,iradius:-iradius [Glob grey_dilation [Glob setsliceiradius:-iradius,iradius:-iradius [Const<zeros(..)>; Select (Img) (MaskE) (FalseC)]]]) (MaskE) (Img)) (MaskE) (Const<1>)]]]) (MaskE) (Select (Glob cropiradius:-iradius,iradius:-iradius [Glob grey_dilation [Glob setsliceiradius:-iradius,iradius:-iradius [Const<zeros(..)>; Select (Img) (MaskE) (FalseC)]]]) (MaskE) (Img)); Img]) (MaskE) (Img) *)
-Definition prog_black_tophat : expr :=
-  sh_27.
+(* black_tophat (18 DAG nodes, 36 as a tree):  Select (Pw sub [Select (Glob cropiradius:-iradius,iradius:-iradius [Glob grey_erosion [Glob setsliceiradius:-iradius,iradius:-iradius [Const<ones(..)>; Select (Select (Glob cropiradius:-iradius,iradius:-iradius [Glob grey_dilation [Glob setsliceiradius:-iradius,iradius:-iradius [Const<zeros(..)>; Select (Img) (MaskE) (FalseC)]]]) (MaskE) (Img)) (MaskE) (Const<1>)]]]) (MaskE) (Select (Glob cropiradius:-iradius,iradius:-iradius [Glob grey_dilation [Glob setsliceiradius:-iradius,iradius:-iradius [Const<zeros(..)>; Select (Img) (MaskE) (FalseC)]]]) (MaskE) (Img)); Img]) (MaskE) (Img) *)
+Definition prog_black_tophat : prog :=
+  ([(Select (Glob 23 [(Glob 26 [(Glob 25 [(Const 1); (Select Img MaskE FalseC)])])]) MaskE Img)],
+   (Select (Pw 27 [(Select (Glob 23 [(Glob 24 [(Glob 25 [(Const 2); (Select (Ref 0) MaskE (Const 3))])])]) MaskE (Ref 0)); Img]) MaskE Img)).
 Example black_tophat_ok : accepts prog_black_tophat = true.
 Proof. vm_compute. reflexivity. Qed.
 
-(* openlines:  Pw sub [Pw max_axis0 [Select (Glob cropiradius:-iradius,iradius:-iradius [Glob grey_dilation@angle0 [Glob setsliceiradius:-iradius,iradius:-iradius [Const<zeros(..)>; Select (Select (Glob cropiradius:-iradius,iradius:-iradius [Glob grey_erosion@angle0 [Glob setsliceiradius:-iradius,iradius:-iradius [Const<ones(..)>; Select (Img) (MaskE) (Const<1>)]]]) (MaskE) (Img)) (MaskE) (FalseC)]]]) (MaskE) (Select (Glob cropiradius:-iradius,iradius:-iradius [Glob grey_erosion@angle0 [Glob setsliceiradius:-iradius,iradius:-iradius [Const<ones(..)>; Select (Img) (MaskE) (Const<1>)]]]) (MaskE) (Img)); Select ... *)
-Definition prog_openlines : expr :=
-  sh_45.
+(* openlines (19 DAG nodes, 65 as a tree):  Pw sub [Pw max_axis0 [Select (Glob cropiradius:-iradius,iradius:-iradius [Glob grey_dilation [Glob setsliceiradius:-iradius,iradius:-iradius [Const<zeros(..)>; Select (Select (Glob cropiradius:-iradius,iradius:-iradius [Glob grey_erosion [Glob setsliceiradius:-iradius,iradius:-iradius [Const<ones(..)>; Select (Img) (MaskE) (Const<1>)]]]) (MaskE) (Img)) (MaskE) (FalseC)]]]) (MaskE) (Select (Glob cropiradius:-iradius,iradius:-iradius [Glob grey_erosion [Glob setsliceiradius:-iradius,iradius:-iradius [Const<ones(..)>; Select (Img) (MaskE) (Const<1>)]]]) (MaskE) (Img))]; Pw min_axis0 [Select (Glob ... *)
+Definition prog_openlines : prog :=
+  ([(Select (Glob 23 [(Glob 24 [(Glob 25 [(Const 2); (Select Img MaskE (Const 3))])])]) MaskE Img);
+    (Select (Glob 23 [(Glob 26 [(Glob 25 [(Const 1); (Select (Ref 0) MaskE FalseC)])])]) MaskE (Ref 0))],
+   (Pw 27 [(Pw 28 [(Ref 1)]); (Pw 29 [(Ref 1)])])).
 Example openlines_ok : accepts prog_openlines = true.
 Proof. vm_compute. reflexivity. Qed.
 
-(* sobel:  Pw sqrt [Pw add [Pw pow [Select (Pw abs [Loc 1 convolve3x3 (Img)]) (Erode 1 (MaskE)) (FalseC)]; Pw pow [Select (Pw abs [Loc 1 convolve3x3 (Img)]) (Erode 1 (MaskE)) (FalseC)]]] *)
-Definition prog_sobel : expr :=
-  sh_47.
+(* sobel (10 DAG nodes, 18 as a tree):  Pw sqrt [Pw add [Pw pow [Select (Pw abs [Loc 1 convolve3x3 (Img)]) (Erode 1 (MaskE)) (FalseC)]; Pw pow [Select (Pw abs [Loc 1 convolve3x3 (Img)]) (Erode 1 (MaskE)) (FalseC)]]] *)
+Definition prog_sobel : prog :=
+  ([(Pw 32 [(Select (Pw 33 [(Loc 1 34 Img)]) (Erode 1 MaskE) FalseC)])],
+   (Pw 30 [(Pw 31 [(Ref 0); (Ref 0)])])).
 Example sobel_ok : accepts prog_sobel = true.
 Proof. vm_compute. reflexivity. Qed.
 
-(* hsobel:  Select (Pw abs [Loc 1 convolve3x3 (Img)]) (Erode 1 (MaskE)) (FalseC) *)
-Definition prog_hsobel : expr :=
-  (Select (Pw 39 [(Loc 1 40 Img)]) (Erode 1 MaskE) FalseC).
+(* hsobel (7 DAG nodes, 7 as a tree):  Select (Pw abs [Loc 1 convolve3x3 (Img)]) (Erode 1 (MaskE)) (FalseC) *)
+Definition prog_hsobel : prog :=
+  ([],
+   (Select (Pw 33 [(Loc 1 34 Img)]) (Erode 1 MaskE) FalseC)).
 Example hsobel_ok : accepts prog_hsobel = true.
 Proof. vm_compute. reflexivity. Qed.
 
-(* vsobel:  Select (Pw abs [Loc 1 convolve3x3 (Img)]) (Erode 1 (MaskE)) (FalseC) *)
-Definition prog_vsobel : expr :=
-  (Select (Pw 39 [(Loc 1 40 Img)]) (Erode 1 MaskE) FalseC).
+(* vsobel (7 DAG nodes, 7 as a tree):  Select (Pw abs [Loc 1 convolve3x3 (Img)]) (Erode 1 (MaskE)) (FalseC) *)
+Definition prog_vsobel : prog :=
+  ([],
+   (Select (Pw 33 [(Loc 1 34 Img)]) (Erode 1 MaskE) FalseC)).
 Example vsobel_ok : accepts prog_vsobel = true.
 Proof. vm_compute. reflexivity. Qed.
 
-(* prewitt:  Pw sqrt [Pw add [Pw pow [Select (Pw abs [Loc 1 convolve3x3 (Img)]) (Erode 1 (MaskE)) (FalseC)]; Pw pow [Select (Pw abs [Loc 1 convolve3x3 (Img)]) (Erode 1 (MaskE)) (FalseC)]]] *)
-Definition prog_prewitt : expr :=
-  sh_47.
+(* prewitt (10 DAG nodes, 18 as a tree):  Pw sqrt [Pw add [Pw pow [Select (Pw abs [Loc 1 convolve3x3 (Img)]) (Erode 1 (MaskE)) (FalseC)]; Pw pow [Select (Pw abs [Loc 1 convolve3x3 (Img)]) (Erode 1 (MaskE)) (FalseC)]]] *)
+Definition prog_prewitt : prog :=
+  ([(Pw 32 [(Select (Pw 33 [(Loc 1 34 Img)]) (Erode 1 MaskE) FalseC)])],
+   (Pw 30 [(Pw 31 [(Ref 0); (Ref 0)])])).
 Example prewitt_ok : accepts prog_prewitt = true.
 Proof. vm_compute. reflexivity. Qed.
 
-(* hprewitt:  Select (Pw abs [Loc 1 convolve3x3 (Img)]) (Erode 1 (MaskE)) (FalseC) *)
-Definition prog_hprewitt : expr :=
-  (Select (Pw 39 [(Loc 1 40 Img)]) (Erode 1 MaskE) FalseC).
+(* hprewitt (7 DAG nodes, 7 as a tree):  Select (Pw abs [Loc 1 convolve3x3 (Img)]) (Erode 1 (MaskE)) (FalseC) *)
+Definition prog_hprewitt : prog :=
+  ([],
+   (Select (Pw 33 [(Loc 1 34 Img)]) (Erode 1 MaskE) FalseC)).
 Example hprewitt_ok : accepts prog_hprewitt = true.
 Proof. vm_compute. reflexivity. Qed.
 
-(* vprewitt:  Select (Pw abs [Loc 1 convolve3x3 (Img)]) (Erode 1 (MaskE)) (FalseC) *)
-Definition prog_vprewitt : expr :=
-  (Select (Pw 39 [(Loc 1 40 Img)]) (Erode 1 MaskE) FalseC).
+(* vprewitt (7 DAG nodes, 7 as a tree):  Select (Pw abs [Loc 1 convolve3x3 (Img)]) (Erode 1 (MaskE)) (FalseC) *)
+Definition prog_vprewitt : prog :=
+  ([],
+   (Select (Pw 33 [(Loc 1 34 Img)]) (Erode 1 MaskE) FalseC)).
 Example vprewitt_ok : accepts prog_vprewitt = true.
 Proof. vm_compute. reflexivity. Qed.
 
-(* roberts:  Select (Glob scatter [Pw sqrt [Pw add [Pw mult [Pw sub [Glob gather [Select (Img) (Erode 1 (MaskE)) (FalseC); Erode 1 (MaskE)]; Glob gather [Select (Loc 1 shift(-1,+1) (Img)) (Erode 1 (MaskE)) (FalseC); Erode 1 (MaskE)]]; Pw sub [Glob gather [Select (Img) (Erode 1 (MaskE)) (FalseC); Erode 1 (MaskE)]; Glob gather [Select (Loc 1 shift(-1,+1) (Img)) (Erode 1 (MaskE)) (FalseC); Erode 1 (MaskE)]]]; Pw mult [Pw sub [Glob gather [Select (Img) (Erode 1 (MaskE)) (FalseC); Erode 1 (MaskE)]; Glob gather [Select (Loc 1 shift(+1,+1) (Img)) (Erode 1 (MaskE)) (FalseC); Erode 1 (MaskE)]]; Pw sub [Glob gather  ... *)
-Definition prog_roberts : expr :=
-  sh_55.
+(* roberts (22 DAG nodes, 87 as a tree):  Select (Glob scatter [Pw sqrt [Pw add [Pw mult [Pw sub [Glob gather [Select (Img) (Erode 1 (MaskE)) (FalseC); Erode 1 (MaskE)]; Glob gather [Select (Loc 1 shift(-1,+1) (Img)) (Erode 1 (MaskE)) (FalseC); Erode 1 (MaskE)]]; Pw sub [Glob gather [Select (Img) (Erode 1 (MaskE)) (FalseC); Erode 1 (MaskE)]; Glob gather [Select (Loc 1 shift(-1,+1) (Img)) (Erode 1 (MaskE)) (FalseC); Erode 1 (MaskE)]]]; Pw mult [Pw sub [Glob gather [Select (Img) (Erode 1 (MaskE)) (FalseC); Erode 1 (MaskE)]; Glob gather [Select (Loc 1 shift(+1,+1) (Img)) (Erode 1 (MaskE)) (FalseC); Erode 1 (MaskE)]]; Pw sub [Glob gather  ... *)
+Definition prog_roberts : prog :=
+  ([(Erode 1 MaskE);
+    (Glob 6 [(Select Img (Ref 0) FalseC); (Ref 0)]);
+    (Pw 27 [(Ref 1); (Glob 6 [(Select (Loc 1 36 Img) (Ref 0) FalseC); (Ref 0)])]);
+    (Pw 27 [(Ref 1); (Glob 6 [(Select (Loc 1 37 Img) (Ref 0) FalseC); (Ref 0)])])],
+   (Select (Glob 8 [(Pw 30 [(Pw 31 [(Pw 35 [(Ref 2); (Ref 2)]); (Pw 35 [(Ref 3); (Ref 3)])])]); (Ref 0)]) (Ref 0) (Select (Const 1) (Ref 0) FalseC))).
 Example roberts_ok : accepts prog_roberts = true.
 Proof. vm_compute. reflexivity. Qed.
 
-(* canny:  Select (Select (Pw gte [Pw sqrt [Pw add [Pw mult [Loc 1 convolve3x3 (Pw div [Glob function [Select (Img) (MaskE) (Const<zeros(..)>)]; Pw add [Glob function [MaskE]]]); Loc 1 convolve3x3 (Pw div [Glob function [Select (Img) (MaskE) (Const<zeros(..)>)]; Pw add [Glob function [MaskE]]])]; Pw mult [Loc 1 convolve3x3 (Pw div [Glob function [Select (Img) (MaskE) (Const<zeros(..)>)]; Pw add [Glob function [MaskE]]]); Loc 1 convolve3x3 (Pw div [Glob function [Select (Img) (MaskE) (Const<zeros(..)>)]; Pw add [Glob function [MaskE]]])]]]]) (Select (Glob scatter [Select (Pw lte [Pw add [Pw mult [Glob gat ... *)
-Definition prog_canny : expr :=
-  sh_206.
+(* canny (165 DAG nodes, 138005 as a tree):  Select (Select (Pw gte [Pw sqrt [Pw add [Pw mult [Loc 1 convolve3x3 (Pw div [Glob function [Select (Img) (MaskE) (Const<zeros(..)>)]; Pw add [Glob function [MaskE]]]); Loc 1 convolve3x3 (Pw div [Glob function [Select (Img) (MaskE) (Const<zeros(..)>)]; Pw add [Glob function [MaskE]]])]; Pw mult [Loc 1 convolve3x3 (Pw div [Glob function [Select (Img) (MaskE) (Const<zeros(..)>)]; Pw add [Glob function [MaskE]]]); Loc 1 convolve3x3 (Pw div [Glob function [Select (Img) (MaskE) (Const<zeros(..)>)]; Pw add [Glob function [MaskE]]])]]]]) (Select (Glob scatter [Select (Pw lte [Pw add [Pw mult [Glob gat ... *)
+Definition prog_canny : prog :=
+  ([(Loc 1 34 (Pw 41 [(Glob 42 [(Select Img MaskE (Const 1))]); (Pw 31 [(Glob 42 [MaskE])])]));
+    (Pw 35 [(Ref 0); (Ref 0)]);
+    (Pw 30 [(Pw 31 [(Ref 1); (Ref 1)])]);
+    (Loc 1 44 (Ref 2));
+    (Pw 33 [(Ref 0)]);
+    (Pw 40 [(Ref 4); (Ref 4)]);
+    (Pw 40 [(Ref 0)]);
+    (Select (Ref 5) (Ref 6) FalseC);
+    (Pw 43 [(Ref 0)]);
+    (Select (Ref 5) (Ref 8) FalseC);
+    (Select (Pw 17 [(Ref 2)]) (Erode 1 MaskE) FalseC);
+    (Select (Pw 45 [(Select (Ref 7) (Ref 8) FalseC); (Select (Ref 9) (Ref 6) FalseC)]) (Ref 10) FalseC);
+    (Glob 6 [(Select (Ref 4) (Ref 11) FalseC); (Ref 11)]);
+    (Pw 41 [(Ref 12); (Ref 12)]);
+    (Loc 1 46 (Ref 2));
+    (Pw 27 [(Ref 13)]);
+    (Glob 6 [(Select (Ref 2) (Ref 11) FalseC); (Ref 11)]);
+    (Loc 1 36 (Ref 2));
+    (Loc 1 47 (Ref 2));
+    (Pw 43 [(Ref 4); (Ref 4)]);
+    (Select (Ref 19) (Ref 6) FalseC);
+    (Select (Ref 19) (Ref 8) FalseC);
+    (Select (Pw 45 [(Select (Ref 20) (Ref 8) FalseC); (Select (Ref 21) (Ref 6) FalseC)]) (Ref 10) FalseC);
+    (Glob 6 [(Select (Ref 4) (Ref 22) FalseC); (Ref 22)]);
+    (Pw 41 [(Ref 23); (Ref 23)]);
+    (Loc 1 48 (Ref 2));
+    (Pw 27 [(Ref 24)]);
+    (Glob 6 [(Select (Ref 2) (Ref 22) FalseC); (Ref 22)]);
+    (Loc 1 49 (Ref 2));
+    (Loc 1 50 (Ref 2));
+    (Select (Pw 45 [(Select (Ref 20) (Ref 6) FalseC); (Select (Ref 21) (Ref 8) FalseC)]) (Ref 10) FalseC);
+    (Glob 6 [(Select (Ref 4) (Ref 30) FalseC); (Ref 30)]);
+    (Pw 41 [(Ref 31); (Ref 31)]);
+    (Pw 27 [(Ref 32)]);
+    (Glob 6 [(Select (Ref 2) (Ref 30) FalseC); (Ref 30)]);
+    (Loc 1 37 (Ref 2));
+    (Select (Pw 45 [(Select (Ref 7) (Ref 6) FalseC); (Select (Ref 9) (Ref 8) FalseC)]) (Ref 10) FalseC);
+    (Glob 6 [(Select (Ref 4) (Ref 36) FalseC); (Ref 36)]);
+    (Pw 41 [(Ref 37); (Ref 37)]);
+    (Pw 27 [(Ref 38)]);
+    (Glob 6 [(Select (Ref 2) (Ref 36) FalseC); (Ref 36)]);
+    (Select (Pw 40 [(Ref 2)]) (Select (Glob 8 [(Select (Pw 43 [(Pw 31 [(Pw 35 [(Glob 6 [(Select (Ref 3) (Ref 11) FalseC); (Ref 11)]); (Ref 13)]); (Pw 35 [(Glob 6 [(Select (Ref 14) (Ref 11) FalseC); (Ref 11)]); (Ref 15)])]); (Ref 16)]) (Pw 43 [(Pw 31 [(Pw 35 [(Glob 6 [(Select (Ref 17) (Ref 11) FalseC); (Ref 11)]); (Ref 13)]); (Pw 35 [(Glob 6 [(Select (Ref 18) (Ref 11) FalseC); (Ref 11)]); (Ref 15)])]); (Ref 16)]) FalseC); (Ref 11)]) (Ref 11) (Select (Glob 8 [(Select (Pw 43 [(Pw 31 [(Pw 35 [(Glob 6 [(Select (Ref 3) (Ref 22) FalseC); (Ref 22)]); (Ref 24)]); (Pw 35 [(Glob 6 [(Select (Ref 25) (Ref 22) FalseC); (Ref 22)]); (Ref 26)])]); (Ref 27)]) (Pw 43 [(Pw 31 [(Pw 35 [(Glob 6 [(Select (Ref 17) (Ref 22) FalseC); (Ref 22)]); (Ref 24)]); (Pw 35 [(Glob 6 [(Select (Ref 28) (Ref 22) FalseC); (Ref 22)]); (Ref 26)])]); (Ref 27)]) FalseC); (Ref 22)]) (Ref 22) (Select (Glob 8 [(Select (Pw 43 [(Pw 31 [(Pw 35 [(Glob 6 [(Select (Ref 29) (Ref 30) FalseC); (Ref 30)]); (Ref 32)]); (Pw 35 [(Glob 6 [(Select (Ref 25) (Ref 30) FalseC); (Ref 30)]); (Ref 33)])]); (Ref 34)]) (Pw 43 [(Pw 31 [(Pw 35 [(Glob 6 [(Select (Ref 35) (Ref 30) FalseC); (Ref 30)]); (Ref 32)]); (Pw 35 [(Glob 6 [(Select (Ref 28) (Ref 30) FalseC); (Ref 30)]); (Ref 33)])]); (Ref 34)]) FalseC); (Ref 30)]) (Ref 30) (Select (Glob 8 [(Select (Pw 43 [(Pw 31 [(Pw 35 [(Glob 6 [(Select (Ref 29) (Ref 36) FalseC); (Ref 36)]); (Ref 38)]); (Pw 35 [(Glob 6 [(Select (Ref 18) (Ref 36) FalseC); (Ref 36)]); (Ref 39)])]); (Ref 40)]) (Pw 43 [(Pw 31 [(Pw 35 [(Glob 6 [(Select (Ref 35) (Ref 36) FalseC); (Ref 36)]); (Ref 38)]); (Pw 35 [(Glob 6 [(Select (Ref 14) (Ref 36) FalseC); (Ref 36)]); (Ref 39)])]); (Ref 40)]) FalseC); (Ref 36)]) (Ref 36) (Const 1))))) FalseC);
+    (Glob 39 [(Ref 41)]);
+    (Glob 20 [(Ref 42)]);
+    (Glob 22 [(Ref 42)])],
+   (Select (Select (Pw 40 [(Ref 2)]) (Select (Glob 8 [(Select (Pw 43 [(Pw 31 [(Pw 35 [(Glob 6 [(Select (Ref 3) (Ref 11) FalseC); (Ref 11)]); (Ref 13)]); (Pw 35 [(Glob 6 [(Select (Ref 14) (Ref 11) FalseC); (Ref 11)]); (Ref 15)])]); (Ref 16)]) (Pw 43 [(Pw 31 [(Pw 35 [(Glob 6 [(Select (Ref 17) (Ref 11) FalseC); (Ref 11)]); (Ref 13)]); (Pw 35 [(Glob 6 [(Select (Ref 18) (Ref 11) FalseC); (Ref 11)]); (Ref 15)])]); (Ref 16)]) FalseC); (Ref 11)]) (Ref 11) (Select (Glob 8 [(Select (Pw 43 [(Pw 31 [(Pw 35 [(Glob 6 [(Select (Ref 3) (Ref 22) FalseC); (Ref 22)]); (Ref 24)]); (Pw 35 [(Glob 6 [(Select (Ref 25) (Ref 22) FalseC); (Ref 22)]); (Ref 26)])]); (Ref 27)]) (Pw 43 [(Pw 31 [(Pw 35 [(Glob 6 [(Select (Ref 17) (Ref 22) FalseC); (Ref 22)]); (Ref 24)]); (Pw 35 [(Glob 6 [(Select (Ref 28) (Ref 22) FalseC); (Ref 22)]); (Ref 26)])]); (Ref 27)]) FalseC); (Ref 22)]) (Ref 22) (Select (Glob 8 [(Select (Pw 43 [(Pw 31 [(Pw 35 [(Glob 6 [(Select (Ref 29) (Ref 30) FalseC); (Ref 30)]); (Ref 32)]); (Pw 35 [(Glob 6 [(Select (Ref 25) (Ref 30) FalseC); (Ref 30)]); (Ref 33)])]); (Ref 34)]) (Pw 43 [(Pw 31 [(Pw 35 [(Glob 6 [(Select (Ref 35) (Ref 30) FalseC); (Ref 30)]); (Ref 32)]); (Pw 35 [(Glob 6 [(Select (Ref 28) (Ref 30) FalseC); (Ref 30)]); (Ref 33)])]); (Ref 34)]) FalseC); (Ref 30)]) (Ref 30) (Select (Glob 8 [(Select (Pw 43 [(Pw 31 [(Pw 35 [(Glob 6 [(Select (Ref 29) (Ref 36) FalseC); (Ref 36)]); (Ref 38)]); (Pw 35 [(Glob 6 [(Select (Ref 18) (Ref 36) FalseC); (Ref 36)]); (Ref 39)])]); (Ref 40)]) (Pw 43 [(Pw 31 [(Pw 35 [(Glob 6 [(Select (Ref 35) (Ref 36) FalseC); (Ref 36)]); (Ref 38)]); (Pw 35 [(Glob 6 [(Select (Ref 14) (Ref 36) FalseC); (Ref 36)]); (Ref 39)])]); (Ref 40)]) FalseC); (Ref 36)]) (Ref 36) (Const 1))))) FalseC) (Pw 38 [(Ref 43)]) (Glob 19 [(Glob 51 [(Glob 52 [(Pw 31 [(Ref 43)])]); (Pw 17 [(Glob 53 [(Glob 54 [(Ref 41); (Ref 44); (Pw 31 [(Glob 55 [(Ref 43)])])])])])]); (Ref 44)]))).
 Example canny_ok : accepts prog_canny = true.
 Proof. vm_compute. reflexivity. Qed.
 
-(* laplacian_of_gaussian:  Select (Pw add [Glob convolve [Select (Pw copy [Img]) (MaskE) (FalseC)]; Pw mult [Glob convolve [Pw not [MaskE]]; Img]]) (MaskE) (Img) *)
-Definition prog_laplacian_of_gaussian : expr :=
-  sh_207.
+(* laplacian_of_gaussian (11 DAG nodes, 15 as a tree):  Select (Pw add [Glob convolve [Select (Pw copy [Img]) (MaskE) (FalseC)]; Pw mult [Glob convolve [Pw not [MaskE]]; Img]]) (MaskE) (Img) *)
+Definition prog_laplacian_of_gaussian : prog :=
+  ([],
+   (Select (Pw 31 [(Glob 56 [(Select (Pw 2 [Img]) MaskE FalseC)]); (Pw 35 [(Glob 56 [(Pw 1 [MaskE])]); Img])]) MaskE Img)).
 Example laplacian_of_gaussian_ok : accepts prog_laplacian_of_gaussian = true.
 Proof. vm_compute. reflexivity. Qed.
 
-(* variance_transform:  Pw sub [Pw div [Glob gaussian_filter [Pw pow [Select (Pw copy [Img]) (MaskE) (FalseC)]]; Glob gaussian_filter [MaskE]]; Pw pow [Pw div [Glob gaussian_filter [Select (Pw copy [Img]) (MaskE) (FalseC)]; Glob gaussian_filter [MaskE]]]] *)
-Definition prog_variance_transform : expr :=
-  sh_208.
+(* variance_transform (13 DAG nodes, 21 as a tree):  Pw sub [Pw div [Glob gaussian_filter [Pw pow [Select (Pw copy [Img]) (MaskE) (FalseC)]]; Glob gaussian_filter [MaskE]]; Pw pow [Pw div [Glob gaussian_filter [Select (Pw copy [Img]) (MaskE) (FalseC)]; Glob gaussian_filter [MaskE]]]] *)
+Definition prog_variance_transform : prog :=
+  ([(Select (Pw 2 [Img]) MaskE FalseC);
+    (Glob 57 [MaskE])],
+   (Pw 27 [(Pw 41 [(Glob 57 [(Pw 32 [(Ref 0)])]); (Ref 1)]); (Pw 32 [(Pw 41 [(Glob 57 [(Ref 0)]); (Ref 1)])])])).
 Example variance_transform_ok : accepts prog_variance_transform = true.
 Proof. vm_compute. reflexivity. Qed.
 
-(* circular_average_filter:  Select (MConv kernel (Pw ascontiguousarray [Img]) (MaskE)) (MaskE) (Img) *)
-Definition prog_circular_average_filter : expr :=
-  (Select (MConv 64 (Pw 10 [Img]) MaskE) MaskE Img).
+(* circular_average_filter (5 DAG nodes, 7 as a tree):  Select (MConv kernel (Pw ascontiguousarray [Img]) (MaskE)) (MaskE) (Img) *)
+Definition prog_circular_average_filter : prog :=
+  ([],
+   (Select (MConv 58 (Pw 10 [Img]) MaskE) MaskE Img)).
 Example circular_average_filter_ok : accepts prog_circular_average_filter = true.
 Proof. vm_compute. reflexivity. Qed.
 
-(* smooth_with_function_and_mask:  Pw div [Glob function [Select (Img) (MaskE) (Const<zeros(..)>)]; Pw add [Glob function [MaskE]]] *)
-Definition prog_smooth_with_function_and_mask : expr :=
-  (Pw 45 [(Glob 46 [(Select Img MaskE (Const 1))]); (Pw 37 [(Glob 46 [MaskE])])]).
+(* smooth_with_function_and_mask (8 DAG nodes, 9 as a tree):  Pw div [Glob function [Select (Img) (MaskE) (Const<zeros(..)>)]; Pw add [Glob function [MaskE]]] *)
+Definition prog_smooth_with_function_and_mask : prog :=
+  ([],
+   (Pw 41 [(Glob 42 [(Select Img MaskE (Const 1))]); (Pw 31 [(Glob 42 [MaskE])])])).
 Example smooth_with_function_and_mask_ok : accepts prog_smooth_with_function_and_mask = true.
 Proof. vm_compute. reflexivity. Qed.
 
-(* stretch:  Select (Pw array [Img]) (Const<cmp>) (Select (Pw array [Img]) (Pw eq [Glob count_nonzero [MaskE]]) (Select (Select (Glob scatter [Glob min [Glob gather [Select (Pw array [Img]) (MaskE) (FalseC); MaskE]]; MaskE]) (MaskE) (Pw array [Img])) (Pw eq [Glob min [Glob gather [Select (Pw array [Img]) (MaskE) (FalseC); MaskE]]; Glob max [Glob gather [Select (Pw array [Img]) (MaskE) (FalseC); MaskE]]]) (Select (Glob scatter [Pw div [Pw sub [Glob gather [Select (Pw array [Img]) (MaskE) (FalseC); MaskE]; Glob min [Glob gather [Select (Pw array [Img]) (MaskE) (FalseC); MaskE]]]; Pw sub [Glob max [Glob gathe ... *)
-Definition prog_stretch : expr :=
-  sh_218.
+(* stretch (22 DAG nodes, 82 as a tree):  Select (Pw array [Img]) (Const<cmp>) (Select (Pw array [Img]) (Pw eq [Glob count_nonzero [MaskE]]) (Select (Select (Glob scatter [Glob min [Glob gather [Select (Pw array [Img]) (MaskE) (FalseC); MaskE]]; MaskE]) (MaskE) (Pw array [Img])) (Pw eq [Glob min [Glob gather [Select (Pw array [Img]) (MaskE) (FalseC); MaskE]]; Glob max [Glob gather [Select (Pw array [Img]) (MaskE) (FalseC); MaskE]]]) (Select (Glob scatter [Pw div [Pw sub [Glob gather [Select (Pw array [Img]) (MaskE) (FalseC); MaskE]; Glob min [Glob gather [Select (Pw array [Img]) (MaskE) (FalseC); MaskE]]]; Pw sub [Glob max [Glob gathe ... *)
+Definition prog_stretch : prog :=
+  ([(Pw 59 [Img]);
+    (Glob 6 [(Select (Ref 0) MaskE FalseC); MaskE]);
+    (Glob 16 [(Ref 1)]);
+    (Glob 18 [(Ref 1)])],
+   (Select (Ref 0) (Const 4) (Select (Ref 0) (Pw 38 [(Glob 60 [MaskE])]) (Select (Select (Glob 8 [(Ref 2); MaskE]) MaskE (Ref 0)) (Pw 38 [(Ref 2); (Ref 3)]) (Select (Glob 8 [(Pw 41 [(Pw 27 [(Ref 1); (Ref 2)]); (Pw 27 [(Ref 3); (Ref 2)])]); MaskE]) MaskE (Ref 0)))))).
 Example stretch_ok : accepts prog_stretch = true.
 Proof. vm_compute. reflexivity. Qed.
 
-(* fit_polynomial:  Select (Select (Select (FalseC) (Pw lt [Select (Const<1>) (Pw gt [Glob sum [Glob opaque_expression [Glob index [Glob lstsq [Glob transpose [Pw array [Glob gather [Select (Const<unpacked>) (Select (Pw gt [Img]) (MaskE) (FalseC)) (FalseC); Select (Pw gt [Img]) (MaskE) (FalseC)]; Glob gather [Select (Const<unpacked>) (Select (Pw gt [Img]) (MaskE) (FalseC)) (FalseC); Select (Pw gt [Img]) (MaskE) (FalseC)]; Glob gather [Select (Const<expr>) (Select (Pw gt [Img]) (MaskE) (FalseC)) (FalseC); Select (Pw gt [Img]) (MaskE) (FalseC)]; Glob gather [Select (Const<expr>) (Select (Pw gt [Img]) (MaskE) (False ... *)
-Definition prog_fit_polynomial : expr :=
-  sh_234.
+(* fit_polynomial (31 DAG nodes, 539 as a tree):  Select (Select (Select (FalseC) (Pw lt [Select (Const<1>) (Pw gt [Glob sum [Glob opaque_expression [Glob index [Glob lstsq [Glob transpose [Pw array [Glob gather [Select (Const<unpacked>) (Select (Pw gt [Img]) (MaskE) (FalseC)) (FalseC); Select (Pw gt [Img]) (MaskE) (FalseC)]; Glob gather [Select (Const<unpacked>) (Select (Pw gt [Img]) (MaskE) (FalseC)) (FalseC); Select (Pw gt [Img]) (MaskE) (FalseC)]; Glob gather [Select (Const<expr>) (Select (Pw gt [Img]) (MaskE) (FalseC)) (FalseC); Select (Pw gt [Img]) (MaskE) (FalseC)]; Glob gather [Select (Const<expr>) (Select (Pw gt [Img]) (MaskE) (False ... *)
+Definition prog_fit_polynomial : prog :=
+  ([(Select (Pw 17 [Img]) MaskE FalseC);
+    (Glob 6 [(Select (Const 6) (Ref 0) FalseC); (Ref 0)]);
+    (Glob 6 [(Select (Const 7) (Ref 0) FalseC); (Ref 0)]);
+    (Glob 54 [(Glob 61 [(Glob 19 [(Glob 62 [(Glob 63 [(Pw 59 [(Ref 1); (Ref 1); (Ref 2); (Ref 2); (Ref 2); (Glob 6 [(Select (Const 2) (Ref 0) FalseC); (Ref 0)])])]); (Glob 6 [(Select Img (Ref 0) FalseC); (Ref 0)])])])])]);
+    (Select (Const 3) (Pw 17 [(Ref 3)]) (Ref 3))],
+   (Select (Select (Select FalseC (Pw 15 [(Ref 4)]) (Select (Const 3) (Pw 17 [(Ref 3)]) (Ref 3))) (Const 5) (Ref 3)) (Glob 11 [(Ref 0)]) Img)).
 Example fit_polynomial_ok : accepts prog_fit_polynomial = true.
 Proof. vm_compute. reflexivity. Qed.
 
-(* circular_hough:  Select (Pw div [Glob sum_of_shifts [Select (Img) (MaskE) (FalseC); MaskE]; Glob sum_of_shifts [Pw astype [MaskE]]]) (Pw gt0 [Glob sum_of_shifts [Pw astype [MaskE]]]) (Glob sum_of_shifts [Select (Img) (MaskE) (FalseC); MaskE]) *)
-Definition prog_circular_hough : expr :=
-  sh_235.
+(* circular_hough (11 DAG nodes, 35 as a tree):  Select (Pw div [Glob loop:a [Glob cropymin+y:ymax+y,xmin+x:xmax+x [Select (Img) (MaskE) (FalseC)]; Glob cropymin+y:ymax+y,xmin+x:xmax+x [MaskE]]; Glob loop:m [Glob cropymin+y:ymax+y,xmin+x:xmax+x [Select (Img) (MaskE) (FalseC)]; Glob cropymin+y:ymax+y,xmin+x:xmax+x [MaskE]]]) (Pw gt [Glob loop:m [Glob cropymin+y:ymax+y,xmin+x:xmax+x [Select (Img) (MaskE) (FalseC)]; Glob cropymin+y:ymax+y,xmin+x:xmax+x [MaskE]]]) (Glob loop:a [Glob cropymin+y:ymax+y,xmin+x:xmax+x [Select (Img) (MaskE) (FalseC)]; Glob cropymin+y:ymax+y,xmin+x:xmax+x [MaskE]]) *)
+Definition prog_circular_hough : prog :=
+  ([(Glob 65 [(Select Img MaskE FalseC)]);
+    (Glob 65 [MaskE]);
+    (Glob 64 [(Ref 0); (Ref 1)]);
+    (Glob 66 [(Ref 0); (Ref 1)])],
+   (Select (Pw 41 [(Ref 3); (Ref 2)]) (Pw 17 [(Ref 2)]) (Ref 3))).
 Example circular_hough_ok : accepts prog_circular_hough = true.
 Proof. vm_compute. reflexivity. Qed.
 
-(* convex_hull_transform:  Select (Const<zeros>) (Glob len_is_0 [Glob gather [Select (Img) (MaskE) (FalseC); MaskE]]) (Select (Img) (Pw eq [Glob min [Glob gather [Select (Img) (MaskE) (FalseC); MaskE]]; Glob max [Glob gather [Select (Img) (MaskE) (FalseC); MaskE]]]) (Glob convex_hull_transform_core [Select (Pw rescale [Img; Glob min [Glob gather [Select (Img) (MaskE) (FalseC); MaskE]]; Glob max [Glob gather [Select (Img) (MaskE) (FalseC); MaskE]]]) (MaskE) (FalseC); Glob min [Glob gather [Select (Img) (MaskE) (FalseC); MaskE]]; Glob max [Glob gather [Select (Img) (MaskE) (FalseC); MaskE]]])) *)
-Definition prog_convex_hull_transform : expr :=
-  sh_241.
+(* convex_hull_transform (260 DAG nodes, 1596660186 as a tree):  Select (Const<zeros(..)>) (Pw eq [Glob len [Glob gather [Select (Img) (MaskE) (FalseC); MaskE]]]) (Select (Img) (Pw eq [Glob min [Glob gather [Select (Img) (MaskE) (FalseC); MaskE]]; Glob max [Glob gather [Select (Img) (MaskE) (FalseC); MaskE]]]) (Select (Glob index [Glob index [Pw add [Glob min [Glob gather [Select (Img) (MaskE) (FalseC); MaskE]]; Pw div [Pw mult [Pw sub [Glob max [Glob gather [Select (Img) (MaskE) (FalseC); MaskE]]; Glob min [Glob gather [Select (Img) (MaskE) (FalseC); MaskE]]]]]]; Glob unique [Pw astype [Pw maximum [Select (Pw div [Pw mult [Pw sub [Img; Glob min [Glob gathe ... *)
+Definition prog_convex_hull_transform : prog :=
+  ([(Glob 6 [(Select Img MaskE FalseC); MaskE]);
+    (Glob 16 [(Ref 0)]);
+    (Glob 18 [(Ref 0)]);
+    (Pw 27 [(Ref 2); (Ref 1)]);
+    (Pw 31 [(Ref 1); (Pw 41 [(Pw 35 [(Ref 3)])])]);
+    (Select (Pw 41 [(Pw 35 [(Pw 27 [Img; (Ref 1)])]); (Ref 3)]) MaskE FalseC);
+    (Pw 69 [(Pw 70 [(Ref 5); (Glob 71 [(Pw 72 [(Ref 5)])])])]);
+    (Glob 68 [(Ref 6)]);
+    (Glob 55 [(Glob 67 [(Ref 7)])]);
+    (Glob 19 [(Glob 75 [(Ref 7); (Ref 8)]); (Ref 6)]);
+    (Glob 76 [(Ref 9)]);
+    (Glob 75 [(Glob 75 [(Glob 75 [(Glob 75 [(Pw 69 [(Glob 23 [(Glob 24 [(Glob 25 [(Glob 80 [(Pw 31 [(Pw 59 [(Ref 10)])])]); (Ref 9)])])])])])])])]);
+    (Pw 17 [(Ref 9); (Ref 11)]);
+    (Glob 6 [(Select (Ref 9) (Ref 12) FalseC); (Ref 12)]);
+    (Glob 6 [(Select (Ref 11) (Ref 12) FalseC); (Ref 12)]);
+    (Pw 27 [(Ref 13); (Ref 14)]);
+    (Pw 27 [(Glob 74 [(Ref 15)]); (Ref 15)]);
+    (Glob 54 [(Ref 15)]);
+    (Glob 81 [(Glob 19 [(Ref 10)])]);
+    (Glob 19 [(Ref 18); (Ref 18)]);
+    (Glob 6 [(Select (Glob 22 [(Ref 19)]) (Ref 12) FalseC); (Ref 12)]);
+    (Glob 6 [(Select (Glob 20 [(Ref 19)]) (Ref 12) FalseC); (Ref 12)]);
+    (Glob 77 [(Glob 78 [(Glob 79 [(Ref 15); (Ref 16); (Ref 17); (Ref 14); (Ref 13); (Ref 20); (Ref 21); (Ref 7)]); (Glob 82 [(Ref 15); (Ref 16); (Ref 17); (Ref 14); (Ref 13); (Ref 20); (Ref 21); (Ref 7)]); (Glob 83 [(Ref 15); (Ref 16); (Ref 17); (Ref 14); (Ref 13); (Ref 20); (Ref 21); (Ref 7)])]); (Ref 8)]);
+    (Glob 19 [(Glob 22 [(Ref 22)])]);
+    (Glob 20 [(Ref 22)]);
+    (Pw 27 [(Glob 74 [(Ref 24)]); (Ref 24)]);
+    (Glob 19 [(Ref 23); (Glob 75 [(Pw 31 [(Glob 55 [(Glob 67 [(Ref 23)])])]); (Pw 27 [(Pw 31 [(Ref 25); (Ref 24)])]); (Ref 25)])]);
+    (Glob 85 [(Ref 23); (Ref 23); (Ref 26); (Ref 26)]);
+    (Glob 84 [(Ref 27)]);
+    (Glob 19 [(Ref 23); (Glob 74 [(Glob 75 [(Glob 52 [(Glob 67 [(Ref 28)])]); (Glob 86 [(Glob 22 [(Ref 27)])])])])]);
+    (Glob 88 [(Ref 27)]);
+    (Glob 87 [(Ref 29); (Ref 28); (Ref 30)]);
+    (Glob 19 [(Ref 28); (Ref 31)]);
+    (Glob 19 [(Ref 30); (Ref 31)]);
+    (Glob 89 [(Pw 90 [(Pw 91 [(Glob 86 [(Ref 32)]); (Glob 92 [(Ref 32)])]); (Pw 91 [(Glob 86 [(Ref 33)]); (Glob 92 [(Ref 33)])])])]);
+    (Glob 19 [(Glob 19 [(Ref 29); (Ref 31)]); (Ref 34)]);
+    (Glob 52 [(Glob 76 [(Ref 35)])]);
+    (Glob 19 [(Ref 32); (Ref 34)]);
+    (Glob 19 [(Ref 33); (Ref 34)]);
+    (Glob 89 [(Pw 91 [(Glob 86 [(Ref 38)]); (Glob 92 [(Ref 38)])])]);
+    (Glob 19 [(Ref 38); (Ref 39)]);
+    (Glob 19 [(Ref 35); (Ref 39)]);
+    (Pw 1 [(Ref 39)]);
+    (Glob 19 [(Ref 38); (Ref 42)]);
+    (Glob 86 [(Ref 39)]);
+    (Pw 1 [(Ref 44)]);
+    (Glob 19 [(Pw 27 [(Glob 86 [(Ref 35)]); (Glob 92 [(Ref 35)])]); (Ref 45)]);
+    (Pw 93 [(Glob 89 [(Ref 44)]); (Pw 15 [(Ref 37)])]);
+    (Glob 68 [(Ref 5)]);
+    (Glob 55 [(Glob 67 [(Ref 48)])]);
+    (Glob 6 [(Select (Glob 75 [(Ref 48); (Ref 49)]) (Ref 5) FalseC); (Ref 5)]);
+    (Glob 60 [(Ref 5)]);
+    (Glob 75 [(Glob 75 [(Glob 75 [(Glob 75 [(Pw 69 [(Glob 23 [(Glob 24 [(Glob 25 [(Glob 80 [(Pw 31 [(Pw 59 [(Ref 51)])])]); (Ref 50)])])])])])])])]);
+    (Pw 17 [(Ref 50); (Ref 52)]);
+    (Glob 6 [(Select (Ref 50) (Ref 53) FalseC); (Ref 53)]);
+    (Glob 6 [(Select (Ref 52) (Ref 53) FalseC); (Ref 53)]);
+    (Pw 27 [(Ref 54); (Ref 55)]);
+    (Pw 27 [(Glob 74 [(Ref 56)]); (Ref 56)]);
+    (Glob 54 [(Ref 56)]);
+    (Glob 81 [(Glob 19 [(Ref 51)])]);
+    (Glob 19 [(Ref 59); (Ref 59)]);
+    (Glob 6 [(Select (Glob 22 [(Ref 60)]) (Ref 53) FalseC); (Ref 53)]);
+    (Glob 6 [(Select (Glob 20 [(Ref 60)]) (Ref 53) FalseC); (Ref 53)]);
+    (Glob 77 [(Glob 78 [(Glob 79 [(Ref 56); (Ref 57); (Ref 58); (Ref 55); (Ref 54); (Ref 61); (Ref 62); (Ref 48)]); (Glob 82 [(Ref 56); (Ref 57); (Ref 58); (Ref 55); (Ref 54); (Ref 61); (Ref 62); (Ref 48)]); (Glob 83 [(Ref 56); (Ref 57); (Ref 58); (Ref 55); (Ref 54); (Ref 61); (Ref 62); (Ref 48)])]); (Ref 49)]);
+    (Glob 19 [(Glob 22 [(Ref 63)])]);
+    (Glob 20 [(Ref 63)]);
+    (Pw 27 [(Glob 74 [(Ref 65)]); (Ref 65)]);
+    (Glob 19 [(Ref 64); (Glob 75 [(Pw 31 [(Glob 55 [(Glob 67 [(Ref 64)])])]); (Pw 27 [(Pw 31 [(Ref 66); (Ref 65)])]); (Ref 66)])]);
+    (Glob 85 [(Ref 64); (Ref 64); (Ref 67); (Ref 67)]);
+    (Glob 84 [(Ref 68)]);
+    (Glob 19 [(Ref 64); (Glob 74 [(Glob 75 [(Glob 52 [(Glob 67 [(Ref 69)])]); (Glob 86 [(Glob 22 [(Ref 68)])])])])]);
+    (Glob 88 [(Ref 68)]);
+    (Glob 87 [(Ref 70); (Ref 69); (Ref 71)]);
+    (Glob 19 [(Ref 69); (Ref 72)]);
+    (Glob 19 [(Ref 71); (Ref 72)]);
+    (Glob 89 [(Pw 90 [(Pw 91 [(Glob 86 [(Ref 73)]); (Glob 92 [(Ref 73)])]); (Pw 91 [(Glob 86 [(Ref 74)]); (Glob 92 [(Ref 74)])])])]);
+    (Glob 19 [(Glob 19 [(Ref 70); (Ref 72)]); (Ref 75)]);
+    (Glob 52 [(Glob 76 [(Ref 76)])]);
+    (Glob 19 [(Ref 73); (Ref 75)]);
+    (Glob 19 [(Ref 74); (Ref 75)]);
+    (Glob 89 [(Pw 91 [(Glob 86 [(Ref 79)]); (Glob 92 [(Ref 79)])])]);
+    (Glob 19 [(Ref 79); (Ref 80)]);
+    (Glob 19 [(Ref 76); (Ref 80)]);
+    (Pw 1 [(Ref 80)]);
+    (Glob 19 [(Ref 79); (Ref 83)]);
+    (Glob 86 [(Ref 80)]);
+    (Pw 1 [(Ref 85)]);
+    (Glob 19 [(Pw 27 [(Glob 86 [(Ref 76)]); (Glob 92 [(Ref 76)])]); (Ref 86)]);
+    (Pw 93 [(Glob 89 [(Ref 85)]); (Pw 15 [(Ref 78)])])],
+   (Select (Const 1) (Pw 38 [(Glob 67 [(Ref 0)])]) (Select Img (Pw 38 [(Ref 1); (Ref 2)]) (Select (Glob 19 [(Glob 19 [(Ref 4); (Ref 7)]); (Pw 73 [(Glob 74 [(Glob 75 [(Glob 75 [(Ref 36); (Glob 19 [(Ref 37); (Ref 39)]); (Ref 40); (Ref 41)]); (Glob 19 [(Ref 37); (Ref 42)]); (Ref 43); (Ref 46)])]); (Glob 74 [(Glob 75 [(Glob 75 [(Glob 75 [(Ref 36); (Ref 40); (Ref 41)]); (Pw 31 [(Glob 19 [(Glob 92 [(Ref 37)]); (Ref 45)])]); (Ref 43); (Ref 46)]); (Pw 31 [(Glob 19 [(Ref 37); (Ref 47)])]); (Glob 19 [(Ref 38); (Ref 47)]); (Pw 94 [(Glob 19 [(Ref 35); (Ref 47)])])])])])]) (Const 4) (Glob 19 [(Glob 19 [(Ref 4); (Ref 48)]); (Pw 73 [(Glob 74 [(Glob 75 [(Glob 75 [(Ref 77); (Glob 19 [(Ref 78); (Ref 80)]); (Ref 81); (Ref 82)]); (Glob 19 [(Ref 78); (Ref 83)]); (Ref 84); (Ref 87)])]); (Glob 74 [(Glob 75 [(Glob 75 [(Glob 75 [(Ref 77); (Ref 81); (Ref 82)]); (Pw 31 [(Glob 19 [(Glob 92 [(Ref 78)]); (Ref 86)])]); (Ref 84); (Ref 87)]); (Pw 31 [(Glob 19 [(Ref 78); (Ref 88)])]); (Glob 19 [(Ref 79); (Ref 88)]); (Pw 94 [(Glob 19 [(Ref 76); (Ref 88)])])])])])]))))).
 Example convex_hull_transform_ok : accepts prog_convex_hull_transform = true.
 Proof. vm_compute. reflexivity. Qed.
 
-(* regional_maximum:  Select (Glob one_pixel_per_component(edt,label,rank_order,maximum_position) [Select (Select (Pw not [Loc 1 has_greater_neighbour (Img)]) (ErodeP 1 (MaskE)) (FalseC)) (MaskE) (FalseC)]) (Glob any [Select (Select (Pw not [Loc 1 has_greater_neighbour (Img)]) (ErodeP 1 (MaskE)) (FalseC)) (MaskE) (FalseC)]) (Select (Select (Pw not [Loc 1 has_greater_neighbour (Img)]) (ErodeP 1 (MaskE)) (FalseC)) (MaskE) (FalseC)) *)
-Definition prog_regional_maximum : expr :=
-  sh_242.
+(* regional_maximum (11 DAG nodes, 33 as a tree):  Select (Glob one_pixel_per_component(edt,label,rank_order,maximum_position) [Select (Select (Pw not [LocS 0 has_greater_structure_neighbour (Img)]) (ErodeS 0 (MaskE)) (FalseC)) (MaskE) (FalseC)]) (Glob any [Select (Select (Pw not [LocS 0 has_greater_structure_neighbour (Img)]) (ErodeS 0 (MaskE)) (FalseC)) (MaskE) (FalseC)]) (Select (Select (Pw not [LocS 0 has_greater_structure_neighbour (Img)]) (ErodeS 0 (MaskE)) (FalseC)) (MaskE) (FalseC)) *)
+Definition prog_regional_maximum : prog :=
+  ([(Select (Select (Pw 1 [(LocS 0 12 Img)]) (ErodeS 0 MaskE) FalseC) MaskE FalseC)],
+   (Select (Glob 13 [(Ref 0)]) (Glob 11 [(Ref 0)]) (Select (Select (Pw 1 [(LocS 0 12 Img)]) (ErodeS 0 MaskE) FalseC) MaskE FalseC))).
 Example regional_maximum_ok : accepts prog_regional_maximum = true.
 Proof. vm_compute. reflexivity. Qed.
 
-(* bridge:  Select (Glob table_lookup [Select (Pw copy [Pw astype [Img]]) (MaskE) (FalseC)]) (MaskE) (Img) *)
-Definition prog_bridge : expr :=
-  (Select (Glob 76 [(Select (Pw 0 [(Pw 71 [Img])]) MaskE FalseC)]) MaskE Img).
+(* bridge (8 DAG nodes, 10 as a tree):  Select (Glob table_lookup [Select (Pw copy [Pw astype [Img]]) (MaskE) (FalseC)]) (MaskE) (Img) *)
+Definition prog_bridge : prog :=
+  ([],
+   (Select (Glob 95 [(Select (Pw 2 [(Pw 69 [Img])]) MaskE FalseC)]) MaskE Img)).
 Example bridge_ok : accepts prog_bridge = true.
 Proof. vm_compute. reflexivity. Qed.
 Example bridge_restores : restores_outside prog_bridge = true.
 Proof. vm_compute. reflexivity. Qed.
 
-(* clean:  Select (Glob table_lookup [Select (Pw copy [Pw astype [Img]]) (MaskE) (FalseC)]) (MaskE) (Img) *)
-Definition prog_clean : expr :=
-  (Select (Glob 76 [(Select (Pw 0 [(Pw 71 [Img])]) MaskE FalseC)]) MaskE Img).
+(* clean (8 DAG nodes, 10 as a tree):  Select (Glob table_lookup [Select (Pw copy [Pw astype [Img]]) (MaskE) (FalseC)]) (MaskE) (Img) *)
+Definition prog_clean : prog :=
+  ([],
+   (Select (Glob 95 [(Select (Pw 2 [(Pw 69 [Img])]) MaskE FalseC)]) MaskE Img)).
 Example clean_ok : accepts prog_clean = true.
 Proof. vm_compute. reflexivity. Qed.
 Example clean_restores : restores_outside prog_clean = true.
 Proof. vm_compute. reflexivity. Qed.
 
-(* diag:  Select (Glob table_lookup [Select (Pw copy [Pw astype [Img]]) (MaskE) (FalseC)]) (MaskE) (Img) *)
-Definition prog_diag : expr :=
-  (Select (Glob 76 [(Select (Pw 0 [(Pw 71 [Img])]) MaskE FalseC)]) MaskE Img).
+(* diag (8 DAG nodes, 10 as a tree):  Select (Glob table_lookup [Select (Pw copy [Pw astype [Img]]) (MaskE) (FalseC)]) (MaskE) (Img) *)
+Definition prog_diag : prog :=
+  ([],
+   (Select (Glob 95 [(Select (Pw 2 [(Pw 69 [Img])]) MaskE FalseC)]) MaskE Img)).
 Example diag_ok : accepts prog_diag = true.
 Proof. vm_compute. reflexivity. Qed.
 Example diag_restores : restores_outside prog_diag = true.
 Proof. vm_compute. reflexivity. Qed.
 
-(* endpoints:  Select (Glob table_lookup [Select (Pw copy [Pw astype [Img]]) (MaskE) (FalseC)]) (MaskE) (Img) *)
-Definition prog_endpoints : expr :=
-  (Select (Glob 76 [(Select (Pw 0 [(Pw 71 [Img])]) MaskE FalseC)]) MaskE Img).
+(* endpoints (8 DAG nodes, 10 as a tree):  Select (Glob table_lookup [Select (Pw copy [Pw astype [Img]]) (MaskE) (FalseC)]) (MaskE) (Img) *)
+Definition prog_endpoints : prog :=
+  ([],
+   (Select (Glob 95 [(Select (Pw 2 [(Pw 69 [Img])]) MaskE FalseC)]) MaskE Img)).
 Example endpoints_ok : accepts prog_endpoints = true.
 Proof. vm_compute. reflexivity. Qed.
 Example endpoints_restores : restores_outside prog_endpoints = true.
 Proof. vm_compute. reflexivity. Qed.
 
-(* branchpoints:  Select (Glob table_lookup [Select (Pw copy [Pw astype [Img]]) (MaskE) (FalseC)]) (MaskE) (Img) *)
-Definition prog_branchpoints : expr :=
-  (Select (Glob 76 [(Select (Pw 0 [(Pw 71 [Img])]) MaskE FalseC)]) MaskE Img).
+(* branchpoints (8 DAG nodes, 10 as a tree):  Select (Glob table_lookup [Select (Pw copy [Pw astype [Img]]) (MaskE) (FalseC)]) (MaskE) (Img) *)
+Definition prog_branchpoints : prog :=
+  ([],
+   (Select (Glob 95 [(Select (Pw 2 [(Pw 69 [Img])]) MaskE FalseC)]) MaskE Img)).
 Example branchpoints_ok : accepts prog_branchpoints = true.
 Proof. vm_compute. reflexivity. Qed.
 Example branchpoints_restores : restores_outside prog_branchpoints = true.
 Proof. vm_compute. reflexivity. Qed.
 
-(* fill:  Select (Glob table_lookup [Select (Pw copy [Pw astype [Img]]) (MaskE) (Const<True>)]) (MaskE) (Img) *)
-Definition prog_fill : expr :=
-  (Select (Glob 76 [(Select (Pw 0 [(Pw 71 [Img])]) MaskE (Const 9))]) MaskE Img).
+(* fill (8 DAG nodes, 10 as a tree):  Select (Glob table_lookup [Select (Pw copy [Pw astype [Img]]) (MaskE) (Const<True>)]) (MaskE) (Img) *)
+Definition prog_fill : prog :=
+  ([],
+   (Select (Glob 95 [(Select (Pw 2 [(Pw 69 [Img])]) MaskE (Const 8))]) MaskE Img)).
 Example fill_ok : accepts prog_fill = true.
 Proof. vm_compute. reflexivity. Qed.
 Example fill_restores : restores_outside prog_fill = true.
 Proof. vm_compute. reflexivity. Qed.
 
-(* fill4:  Select (Glob table_lookup [Select (Pw copy [Pw astype [Img]]) (MaskE) (Const<True>)]) (MaskE) (Img) *)
-Definition prog_fill4 : expr :=
-  (Select (Glob 76 [(Select (Pw 0 [(Pw 71 [Img])]) MaskE (Const 9))]) MaskE Img).
+(* fill4 (8 DAG nodes, 10 as a tree):  Select (Glob table_lookup [Select (Pw copy [Pw astype [Img]]) (MaskE) (Const<True>)]) (MaskE) (Img) *)
+Definition prog_fill4 : prog :=
+  ([],
+   (Select (Glob 95 [(Select (Pw 2 [(Pw 69 [Img])]) MaskE (Const 8))]) MaskE Img)).
 Example fill4_ok : accepts prog_fill4 = true.
 Proof. vm_compute. reflexivity. Qed.
 Example fill4_restores : restores_outside prog_fill4 = true.
 Proof. vm_compute. reflexivity. Qed.
 
-(* hbreak:  Select (Glob table_lookup [Select (Pw copy [Pw astype [Img]]) (MaskE) (FalseC)]) (MaskE) (Img) *)
-Definition prog_hbreak : expr :=
-  (Select (Glob 76 [(Select (Pw 0 [(Pw 71 [Img])]) MaskE FalseC)]) MaskE Img).
+(* hbreak (8 DAG nodes, 10 as a tree):  Select (Glob table_lookup [Select (Pw copy [Pw astype [Img]]) (MaskE) (FalseC)]) (MaskE) (Img) *)
+Definition prog_hbreak : prog :=
+  ([],
+   (Select (Glob 95 [(Select (Pw 2 [(Pw 69 [Img])]) MaskE FalseC)]) MaskE Img)).
 Example hbreak_ok : accepts prog_hbreak = true.
 Proof. vm_compute. reflexivity. Qed.
 Example hbreak_restores : restores_outside prog_hbreak = true.
 Proof. vm_compute. reflexivity. Qed.
 
-(* vbreak:  Select (Glob table_lookup [Select (Pw copy [Pw astype [Img]]) (MaskE) (FalseC)]) (MaskE) (Img) *)
-Definition prog_vbreak : expr :=
-  (Select (Glob 76 [(Select (Pw 0 [(Pw 71 [Img])]) MaskE FalseC)]) MaskE Img).
+(* vbreak (8 DAG nodes, 10 as a tree):  Select (Glob table_lookup [Select (Pw copy [Pw astype [Img]]) (MaskE) (FalseC)]) (MaskE) (Img) *)
+Definition prog_vbreak : prog :=
+  ([],
+   (Select (Glob 95 [(Select (Pw 2 [(Pw 69 [Img])]) MaskE FalseC)]) MaskE Img)).
 Example vbreak_ok : accepts prog_vbreak = true.
 Proof. vm_compute. reflexivity. Qed.
 Example vbreak_restores : restores_outside prog_vbreak = true.
 Proof. vm_compute. reflexivity. Qed.
 
-(* majority:  Select (Glob table_lookup [Select (Pw copy [Pw astype [Img]]) (MaskE) (FalseC)]) (MaskE) (Img) *)
-Definition prog_majority : expr :=
-  (Select (Glob 76 [(Select (Pw 0 [(Pw 71 [Img])]) MaskE FalseC)]) MaskE Img).
+(* majority (8 DAG nodes, 10 as a tree):  Select (Glob table_lookup [Select (Pw copy [Pw astype [Img]]) (MaskE) (FalseC)]) (MaskE) (Img) *)
+Definition prog_majority : prog :=
+  ([],
+   (Select (Glob 95 [(Select (Pw 2 [(Pw 69 [Img])]) MaskE FalseC)]) MaskE Img)).
 Example majority_ok : accepts prog_majority = true.
 Proof. vm_compute. reflexivity. Qed.
 Example majority_restores : restores_outside prog_majority = true.
 Proof. vm_compute. reflexivity. Qed.
 
-(* remove:  Select (Glob table_lookup [Select (Pw copy [Pw astype [Img]]) (MaskE) (FalseC)]) (MaskE) (Img) *)
-Definition prog_remove : expr :=
-  (Select (Glob 76 [(Select (Pw 0 [(Pw 71 [Img])]) MaskE FalseC)]) MaskE Img).
+(* remove (8 DAG nodes, 10 as a tree):  Select (Glob table_lookup [Select (Pw copy [Pw astype [Img]]) (MaskE) (FalseC)]) (MaskE) (Img) *)
+Definition prog_remove : prog :=
+  ([],
+   (Select (Glob 95 [(Select (Pw 2 [(Pw 69 [Img])]) MaskE FalseC)]) MaskE Img)).
 Example remove_ok : accepts prog_remove = true.
 Proof. vm_compute. reflexivity. Qed.
 Example remove_restores : restores_outside prog_remove = true.
 Proof. vm_compute. reflexivity. Qed.
 
-(* spur:  Select (Select (Select (Img) (Glob index_set [Glob loop:index_i [Glob len [Glob unpack0 [Glob prepare_for_index_lookup [Select (Pw copy [Pw astype [Img]]) (MaskE) (FalseC)]]]; Glob unpack0 [Glob prepare_for_index_lookup [Select (Pw copy [Pw astype [Img]]) (MaskE) (FalseC)]]; Glob unpack1 [Glob prepare_for_index_lookup [Select (Pw copy [Pw astype [Img]]) (MaskE) (FalseC)]]; Glob unpack2 [Glob prepare_for_index_lookup [Select (Pw copy [Pw astype [Img]]) (MaskE) (FalseC)]]]; Glob loop:index_j [Glob len [Glob unpack0 [Glob prepare_for_index_lookup [Select (Pw copy [Pw astype [Img]]) (MaskE) (False ... *)
-Definition prog_spur : expr :=
-  sh_253.
+(* spur (24 DAG nodes, 134 as a tree):  Select (Select (Select (Img) (Glob index_set [Glob loop:index_i [Glob len [Glob unpack0 [Glob prepare_for_index_lookup [Select (Pw copy [Pw astype [Img]]) (MaskE) (FalseC)]]]; Glob unpack0 [Glob prepare_for_index_lookup [Select (Pw copy [Pw astype [Img]]) (MaskE) (FalseC)]]; Glob unpack1 [Glob prepare_for_index_lookup [Select (Pw copy [Pw astype [Img]]) (MaskE) (FalseC)]]; Glob unpack2 [Glob prepare_for_index_lookup [Select (Pw copy [Pw astype [Img]]) (MaskE) (FalseC)]]]; Glob loop:index_j [Glob len [Glob unpack0 [Glob prepare_for_index_lookup [Select (Pw copy [Pw astype [Img]]) (MaskE) (False ... *)
+Definition prog_spur : prog :=
+  ([(Glob 98 [(Select (Pw 2 [(Pw 69 [Img])]) MaskE FalseC)]);
+    (Glob 22 [(Ref 0)]);
+    (Glob 67 [(Ref 1)]);
+    (Glob 20 [(Ref 0)]);
+    (Glob 84 [(Ref 0)])],
+   (Select (Select (Select Img (Glob 96 [(Glob 97 [(Ref 2); (Ref 1); (Ref 3); (Ref 4)]); (Glob 99 [(Ref 2); (Ref 1); (Ref 3); (Ref 4)])]) (Const 10)) MaskE Img) (Const 9) (Select (Select Img (Glob 96 [(Glob 97 [(Ref 1); (Ref 3); (Ref 4)]); (Glob 99 [(Ref 1); (Ref 3); (Ref 4)])]) (Const 10)) MaskE Img))).
 Example spur_ok : accepts prog_spur = true.
 Proof. vm_compute. reflexivity. Qed.
 Example spur_restores : restores_outside prog_spur = true.
 Proof. vm_compute. reflexivity. Qed.
 
-(* thicken:  Select (Glob table_lookup [Select (Pw copy [Pw astype [Img]]) (MaskE) (FalseC)]) (MaskE) (Img) *)
-Definition prog_thicken : expr :=
-  (Select (Glob 76 [(Select (Pw 0 [(Pw 71 [Img])]) MaskE FalseC)]) MaskE Img).
+(* thicken (8 DAG nodes, 10 as a tree):  Select (Glob table_lookup [Select (Pw copy [Pw astype [Img]]) (MaskE) (FalseC)]) (MaskE) (Img) *)
+Definition prog_thicken : prog :=
+  ([],
+   (Select (Glob 95 [(Select (Pw 2 [(Pw 69 [Img])]) MaskE FalseC)]) MaskE Img)).
 Example thicken_ok : accepts prog_thicken = true.
 Proof. vm_compute. reflexivity. Qed.
 Example thicken_restores : restores_outside prog_thicken = true.
 Proof. vm_compute. reflexivity. Qed.
 
-(* thin:  Select (Select (Select (Img) (Glob index_set [Glob loop:index_i [Glob len [Glob unpack0 [Glob prepare_for_index_lookup [Select (Pw copy [Img]) (MaskE) (FalseC)]]]; Glob unpack0 [Glob prepare_for_index_lookup [Select (Pw copy [Img]) (MaskE) (FalseC)]]; Glob unpack1 [Glob prepare_for_index_lookup [Select (Pw copy [Img]) (MaskE) (FalseC)]]; Glob unpack2 [Glob prepare_for_index_lookup [Select (Pw copy [Img]) (MaskE) (FalseC)]]]; Glob loop:index_j [Glob len [Glob unpack0 [Glob prepare_for_index_lookup [Select (Pw copy [Img]) (MaskE) (FalseC)]]]; Glob unpack0 [Glob prepare_for_index_lookup [Select ( ... *)
-Definition prog_thin : expr :=
-  sh_264.
+(* thin (23 DAG nodes, 120 as a tree):  Select (Select (Select (Img) (Glob index_set [Glob loop:index_i [Glob len [Glob unpack0 [Glob prepare_for_index_lookup [Select (Pw copy [Img]) (MaskE) (FalseC)]]]; Glob unpack0 [Glob prepare_for_index_lookup [Select (Pw copy [Img]) (MaskE) (FalseC)]]; Glob unpack1 [Glob prepare_for_index_lookup [Select (Pw copy [Img]) (MaskE) (FalseC)]]; Glob unpack2 [Glob prepare_for_index_lookup [Select (Pw copy [Img]) (MaskE) (FalseC)]]]; Glob loop:index_j [Glob len [Glob unpack0 [Glob prepare_for_index_lookup [Select (Pw copy [Img]) (MaskE) (FalseC)]]]; Glob unpack0 [Glob prepare_for_index_lookup [Select ( ... *)
+Definition prog_thin : prog :=
+  ([(Glob 98 [(Select (Pw 2 [Img]) MaskE FalseC)]);
+    (Glob 22 [(Ref 0)]);
+    (Glob 67 [(Ref 1)]);
+    (Glob 20 [(Ref 0)]);
+    (Glob 84 [(Ref 0)])],
+   (Select (Select (Select Img (Glob 96 [(Glob 97 [(Ref 2); (Ref 1); (Ref 3); (Ref 4)]); (Glob 99 [(Ref 2); (Ref 1); (Ref 3); (Ref 4)])]) (Const 10)) MaskE Img) (Const 9) (Select (Select Img (Glob 96 [(Glob 97 [(Ref 1); (Ref 3); (Ref 4)]); (Glob 99 [(Ref 1); (Ref 3); (Ref 4)])]) (Const 10)) MaskE Img))).
 Example thin_ok : accepts prog_thin = true.
 Proof. vm_compute. reflexivity. Qed.
 Example thin_restores : restores_outside prog_thin = true.
 Proof. vm_compute. reflexivity. Qed.
 
-(* skeletonize:  Select (Select (Pw astype [Glob skeletonize_loop [Pw ascontiguousarray [Pw copy [Select (Pw copy [Pw astype [Img]]) (MaskE) (FalseC)]]; Pw ascontiguousarray [Glob index [Pw copy [Select (Pw copy [Pw astype [Img]]) (MaskE) (FalseC)]]]; Pw ascontiguousarray [Glob index [Pw copy [Select (Pw copy [Pw astype [Img]]) (MaskE) (FalseC)]]]; Pw ascontiguousarray [Glob lexsort [Glob gather [Select (Const<permutation(..)>) (Select (Pw copy [Pw astype [Img]]) (MaskE) (FalseC)) (FalseC); Select (Pw copy [Pw astype [Img]]) (MaskE) (FalseC)]; Glob gather [Select (Glob table_lookup [Select (Pw copy [Pw astype  ... *)
-Definition prog_skeletonize : expr :=
-  sh_279.
+(* skeletonize (30 DAG nodes, 167 as a tree):  Select (Select (Pw astype [Glob skeletonize_loop [Pw ascontiguousarray [Pw copy [Select (Pw copy [Pw astype [Img]]) (MaskE) (FalseC)]]; Pw ascontiguousarray [Glob index [Pw copy [Select (Pw copy [Pw astype [Img]]) (MaskE) (FalseC)]]]; Pw ascontiguousarray [Glob index [Pw copy [Select (Pw copy [Pw astype [Img]]) (MaskE) (FalseC)]]]; Pw ascontiguousarray [Glob lexsort [Glob gather [Select (Const<permutation(..)>) (Select (Pw copy [Pw astype [Img]]) (MaskE) (FalseC)) (FalseC); Select (Pw copy [Pw astype [Img]]) (MaskE) (FalseC)]; Glob gather [Select (Glob table_lookup [Select (Pw copy [Pw astype  ... *)
+Definition prog_skeletonize : prog :=
+  ([(Select (Pw 2 [(Pw 69 [Img])]) MaskE FalseC);
+    (Pw 2 [(Ref 0)]);
+    (Pw 10 [(Ref 1)]);
+    (Glob 19 [(Ref 1)]);
+    (Pw 10 [(Ref 3)]);
+    (Glob 6 [(Select (Const 11) (Ref 0) FalseC); (Ref 0)]);
+    (Glob 6 [(Select (Glob 95 [(Ref 0)]) (Ref 0) FalseC); (Ref 0)])],
+   (Select (Select (Pw 69 [(Glob 100 [(Ref 2); (Ref 4); (Ref 4); (Pw 10 [(Glob 87 [(Ref 5); (Ref 6); (Glob 19 [(Glob 101 [(Ref 0)]); (Ref 1)])])])])]) MaskE Img) (Const 9) (Select (Pw 69 [(Glob 100 [(Ref 2); (Ref 4); (Ref 4); (Pw 10 [(Glob 87 [(Ref 5); (Ref 6); (Ref 3)])])])]) MaskE Img))).
 Example skeletonize_ok : accepts prog_skeletonize = true.
 Proof. vm_compute. reflexivity. Qed.
 Example skeletonize_restores : restores_outside prog_skeletonize = true.
 Proof. vm_compute. reflexivity. Qed.
 
-(* regional_maximum_ties_are_ok:  Select (Select (Pw not [Loc 1 has_greater_neighbour (Img)]) (ErodeP 1 (MaskE)) (FalseC)) (MaskE) (FalseC) *)
-Definition prog_regional_maximum_ties_are_ok : expr :=
-  (Select (Select (Pw 2 [(Loc 1 12 Img)]) (ErodeP 1 MaskE) FalseC) MaskE FalseC).
+(* regional_maximum_ties_are_ok (8 DAG nodes, 10 as a tree):  Select (Select (Pw not [LocS 0 has_greater_structure_neighbour (Img)]) (ErodeS 0 (MaskE)) (FalseC)) (MaskE) (FalseC) *)
+Definition prog_regional_maximum_ties_are_ok : prog :=
+  ([],
+   (Select (Select (Pw 1 [(LocS 0 12 Img)]) (ErodeS 0 MaskE) FalseC) MaskE FalseC)).
 Example regional_maximum_ties_are_ok_ok : accepts prog_regional_maximum_ties_are_ok = true.
 Proof. vm_compute. reflexivity. Qed.
 
-(* regional_maximum_at: the term of regional_maximum with a symbolic structure radius r *)
-Definition prog_regional_maximum_at (r : nat) : expr :=
-  (Select (Glob 11 [(Select (Select (Pw 2 [(Loc r 12 Img)]) (ErodeP r MaskE) FalseC) MaskE FalseC)]) (Glob 13 [(Select (Select (Pw 2 [(Loc r 12 Img)]) (ErodeP r MaskE) FalseC) MaskE FalseC)]) (Select (Select (Pw 2 [(Loc r 12 Img)]) (ErodeP r MaskE) FalseC) MaskE FalseC)).
-Lemma regional_maximum_at_ok : forall r, accepts (prog_regional_maximum_at r) = true.
-Proof. intros r. unfold accepts, prog_regional_maximum_at. cbn. rewrite ?PeanoNat.Nat.leb_refl. cbn. reflexivity. Qed.
+(* regional_maximum_struct: the term of regional_maximum with a symbolic (abstract) structure s *)
+Definition prog_regional_maximum_struct (s : nat) : prog :=
+  ([(Select (Select (Pw 1 [(LocS s 12 Img)]) (ErodeS s MaskE) FalseC) MaskE FalseC)],
+   (Select (Glob 13 [(Ref 0)]) (Glob 11 [(Ref 0)]) (Select (Select (Pw 1 [(LocS s 12 Img)]) (ErodeS s MaskE) FalseC) MaskE FalseC))).
+Lemma regional_maximum_struct_ok : forall s, accepts (prog_regional_maximum_struct s) = true.
+Proof. intros s. unfold accepts, prog_regional_maximum_struct. cbn. rewrite ?PeanoNat.Nat.eqb_refl. cbn. reflexivity. Qed.
 
-Definition listed_progs : list expr :=
+Definition listed_progs : list prog :=
   [prog_median_filter; prog_grey_erosion; prog_grey_dilation; prog_opening; prog_closing; prog_white_tophat; prog_black_tophat; prog_openlines; prog_sobel; prog_hsobel; prog_vsobel; prog_prewitt; prog_hprewitt; prog_vprewitt; prog_roberts; prog_canny; prog_laplacian_of_gaussian; prog_variance_transform; prog_circular_average_filter; prog_smooth_with_function_and_mask; prog_stretch; prog_fit_polynomial; prog_circular_hough; prog_convex_hull_transform; prog_regional_maximum; prog_bridge; prog_clean; prog_diag; prog_endpoints; prog_branchpoints; prog_fill; prog_fill4; prog_hbreak; prog_vbreak; prog_majority; prog_remove; prog_spur; prog_thicken; prog_thin; prog_skeletonize].
-Definition binary_progs : list expr :=
+Definition binary_progs : list prog :=
   [prog_bridge; prog_clean; prog_diag; prog_endpoints; prog_branchpoints; prog_fill; prog_fill4; prog_hbreak; prog_vbreak; prog_majority; prog_remove; prog_spur; prog_thicken; prog_thin; prog_skeletonize].
 Lemma listed_accepted : forallb accepts listed_progs = true.
 Proof. vm_compute. reflexivity. Qed.
